@@ -2,6 +2,7 @@ package main
 
 import (
 	"fmt"
+	"go/constant"
 	"go/token"
 	"go/types"
 	"os"
@@ -38,21 +39,22 @@ func init() {
 		ID:    "C11",
 		Title: "The encrypting store leaks no plaintext, detects tampering, and is recoverable",
 		Explanation: "Decided (structural necessary conditions, package pkg/blobserver/encrypt): " +
-			"X-taint — explicit information flow, package-wide and flow-insensitive: no value derived from the plaintext handed in through the storage API (the ReceiveBlob reader, plaintext blobrefs of ReceiveBlob/Fetch/StatBlobs/RemoveBlobs/EnumerateBlobs), from keys of the meta index (plaintext refs) or from the output of age.Decrypt reaches any argument of any call that is given one of the wrapped stores (a method call on storage.blobs/storage.meta or a helper such as blobserver.ReceiveNoHash/EnumerateAll taking one); the only declassifier is the writer returned by age.Encrypt; every reader/byte-slice handed to a wrapped store, and the blobref it is stored under, derive from a buffer age.Encrypt wrote into, and that blobref is computed (blob.RefFromBytes) from the very buffer that is uploaded; the value half of every meta-index row (size/encrypted-ref, later used as the name fetched from the wrapped store) does not derive from API plaintext; every age.Encrypt/age.Decrypt call is keyed from the one identity field of the storage struct. " +
-			"X-fetch — every success return of Fetch is dominated by HashMatches()==true of the fetched blob's ref against a hash fed (before the comparison) from the reader the wrapped store returned, and by a successful decryptBlob of a buffer fed by that same copy; the returned reader is the decrypt output and the returned size is the indexed plaintext size for the requested ref; decryptBlob returns nil only after the version byte compared equal to the constant encryptBlob writes, age.Decrypt succeeded and the copy of its output succeeded; encryptBlob returns nil only after the copy into the age writer and its Close succeeded. " +
-			"X-compact — in makePackedMetaBlob the removal of the small meta blobs is dominated by the success edge of the upload of the packed meta blob to the same store, which is dominated by a successful encryptBlob into the uploaded buffer, and is unreachable from the failure edge of an index look-up; what is removed is one parameter of the packer and the packed plaintext is fed from exactly one other ref-list parameter, and at every call site of the packer those two arguments are lock-step accumulators (per record one append of its row list and one append of its own ref, from the same record, in the same block; reset together; merged by phis edge by edge), so the deleted meta blobs are exactly the records whose rows were handed in for packing; the restart path exists: the constructor returns a store only after readAllMetaBlobs succeeded, which enumerates the meta store, fetches every enumerated ref from it, hands the bytes to processEncryptedMetaBlob and fails if that fails; processEncryptedMetaBlob succeeds only after a successful decryptBlob and writes an index row computed from the decrypted lines, failing if the index write fails; the header line written by both meta writers equals the one the parser accepts. " +
-			"X-index — the recoverability invariant 'the local index never knows more than the meta store durably records' (which is also what makes the duplicate short-cut at the top of ReceiveBlob and stat/enumerate sound): who-may-write enumeration of every sorted.KeyValue.Set in the package (the index handle is shown never to leave the package other than as the receiver of KeyValue methods); each write must be either REPLAYED — the row is computed only (backward slice, all leaves) from the plaintext buffer of a decrypt-helper call whose ciphertext is only a parameter that every caller in the package feeds from a reader the meta store returned for a fetch (a caller that does not is judged as a writer itself) — or DURABLE-FIRST — the write is on the success edge of an upload into the meta store (the store the start-up scan enumerates; resolved per call site through forwarding helpers, which must report the upload's failure) whose content is the ciphertext of an encrypt-helper call into whose plaintext every blob.Ref the row is computed from flows, and that meta upload is on the success edge of the upload, into the blobs store (the store Fetch reads), of the ciphertext stored under the encrypted ref the row's value is computed from. A write inside a helper or function literal is judged at every call site (bounded depth 3, row translated through the parameters); a deferred write at every run-defers point it reaches, a write started with go at the go statement; a write in a callback or an API method that is not covered where it stands is a violation. " +
-			"NOT decided: implicit flows (control dependence, timing, sizes: integer, float and boolean values other than bytes are treated as carrying no plaintext, and the size half of a row is not compared between index and meta blob), confidentiality/authenticity of age itself, what external helpers do with their arguments beyond 'results and mutable arguments depend on all arguments', which field of a decrypted meta line ends up as the encrypted ref (the index is trusted to return what was stored), that tampering is detected for any concrete byte flip, that every metaBlob record pairs a meta blob's ref with exactly the rows that blob holds (construction sites of the records are not checked, nor that the packer writes every element of its row list), index Delete/Wipe and batch writes (batch operations are reported undecided by X-taint's flow model), rows left in a persistent index by an earlier process (a crash of an older, differently ordered version; meta blobs removed behind the store's back), recoverability outcomes for any concrete history.",
+			"HOW SITES ARE FOUND (all rules) — anchors are resolved by role, never by the name of an internal helper: Fetch is the storage type's blob.Fetcher method; the encrypt/decrypt helper is found by walking up from the package's single age.Encrypt/age.Decrypt call through only-callers and taking the outermost of the unbroken run of functions that have both the ciphertext and the plaintext buffer as parameters; the compaction function is the function whose effective body holds a removal from a wrapped store and an upload to the same store; a constructor is a function that returns a storage it (or a helper) allocated and is not merely a helper of another package function; the scan function is the function the constructor calls that (transitively) enumerates a wrapped store with a callback; the process function is the innermost function called from the scan function's effective body whose own effective body both calls the decrypt helper and writes the meta index. A site 'in function F' is looked for in F's EFFECTIVE BODY: F plus, transitively (depth 4), the package functions, methods and function literals F calls statically (go/defer/callback links are followed for finding sites but never count for ordering); a parameter of a helper stands for the caller's argument, the result of a helper call for what the helper returns on its success returns. Ordering facts are carried across calls: a call of helper H counts as 'P happened' at a site if the call precedes the site and every exit of H that is compatible with what is known about H's results at the site (error known nil; a boolean result known true/false; H returning the tested boolean itself) has P behind it, recursively; a success return that just forwards the outcome of a helper call (tail call) is judged at the helper's own success exits; 'after a failed X' follows the branches that test X's error on the failure side only, and continues in the caller of a helper only through exits that report the failure (non-nil error or constant false) which the caller tests. " +
+			"X-taint — explicit information flow, package-wide and flow-insensitive: no value derived from the plaintext handed in through the storage API (the ReceiveBlob reader, plaintext blobrefs of ReceiveBlob/Fetch/StatBlobs/RemoveBlobs/EnumerateBlobs), from keys of the meta index (plaintext refs) or from the output of age.Decrypt reaches any argument of any call that is given one of the wrapped stores (a method call on storage.blobs/storage.meta or a helper such as blobserver.ReceiveNoHash/EnumerateAll taking one); the only declassifier is the writer returned by age.Encrypt; every reader/byte-slice handed to a wrapped store, and the blobref it is stored under, derive from a buffer age.Encrypt wrote into, and that blobref is computed (blob.RefFromBytes, possibly inside a package helper that is handed the buffer; through forwarding helpers that take ref and bytes, at their callers) from the very buffer that is uploaded; the value half of every meta-index row (size/encrypted-ref, later used as the name fetched from the wrapped store) does not derive from API plaintext; every age.Encrypt/age.Decrypt call is keyed from the one identity field of the storage struct. " +
+			"X-fetch — every success return of Fetch (or, for a tail call, of the helper whose outcome Fetch returns) has behind it HashMatches()==true of the ref that was fetched from the wrapped store (the read may sit in a helper) against a hash fed (before the comparison) from the reader the wrapped store returned, and a successful call of the decrypt helper on a buffer fed by that same copy; the returned reader is the decrypt output and the returned size derives from the same index look-up (keyed from the requested ref) as the fetched ref and from no wrapped-store call; the decrypt helper returns nil only after the version byte compared equal to the constant the encrypt side writes (the comparison may sit in a helper of the decrypt helper or, when the decrypt helper was split off below it, at every call site of the decrypt helper; likewise the write of the constant on the encrypt side), age.Decrypt succeeded and the copy of its output succeeded; the encrypt helper returns nil only after the copy into the age writer and its Close succeeded. " +
+			"X-compact — seen from the compaction function, the removal of the small meta blobs has behind it the success of the upload of the packed meta blob to the same store, which has behind it a successful call of the encrypt helper into the uploaded buffer, and the removal cannot execute after a failed index look-up of a row that goes into the packed plaintext (look-up, upload, encryption and removal may each sit in helpers; a helper containing the look-up must report the failure to its caller); what is removed is one parameter of the compaction function and the packed plaintext is fed from exactly one other ref-list parameter, and at every call site of the compaction function those two arguments are lock-step accumulators (per record one append of its row list and one append of its own ref, from the same record, in the same block - also inside a helper that takes and returns both lists; reset together; merged by phis edge by edge), so the deleted meta blobs are exactly the records whose rows were handed in for packing; the restart path exists: every constructor returns a store only after the scan function succeeded on it; the callback of the enumeration of the meta store (its effective body, goroutines and helpers included) fetches every enumerated ref from that store; the bytes handed to the process function flow from that fetch and every path after a failed process call ends the scan function with a non-nil error; the process function succeeds only after a successful call of the decrypt helper and after the first decrypted line compared equal to a constant header, writes (in a loop) index rows computed from the decrypted text, and every path after a failed index write ends it with a non-nil error; the header constant equals a prefix of a constant written into the plaintext of every encrypt-helper call whose ciphertext is uploaded to the meta store. " +
+			"X-index — the recoverability invariant 'the local index never knows more than the meta store durably records' (which is also what makes the duplicate short-cut at the top of ReceiveBlob and stat/enumerate sound): who-may-write enumeration of every sorted.KeyValue.Set in the package (the index handle is shown never to leave the package other than as the receiver of KeyValue methods); each write must be either REPLAYED — the row is computed only (backward slice, all leaves) from the plaintext buffer of a decrypt-helper call (in the writer's effective body) whose ciphertext is only a parameter that every caller in the package feeds from a reader the meta store returned for a fetch (a caller that does not is judged as a writer itself) — or DURABLE-FIRST — the write has behind it the success of an upload into the meta store (the store the start-up scan enumerates; the upload may sit in helpers, which must report its failure) whose content is the ciphertext of an encrypt-helper call into whose plaintext every blob.Ref the row is computed from flows, and that meta upload has behind it the success of the upload, into the blobs store (the store Fetch reads), of the ciphertext stored under the encrypted ref the row's value is computed from (both uploads may sit in one helper). A write inside a helper or function literal is judged at every call site (bounded depth 3, row translated through the parameters); a deferred write at every run-defers point it reaches, a write started with go at the go statement; a write in a callback or an API method that is not covered where it stands is a violation. " +
+			"NOT decided: implicit flows (control dependence, timing, sizes: integer, float and boolean values other than bytes are treated as carrying no plaintext, and the size half of a row is not compared between index and meta blob), confidentiality/authenticity of age itself, what external helpers do with their arguments beyond 'results and mutable arguments depend on all arguments', which field of a decrypted meta line ends up as the encrypted ref (the index is trusted to return what was stored), that tampering is detected for any concrete byte flip, that every metaBlob record pairs a meta blob's ref with exactly the rows that blob holds (construction sites of the records are not checked, nor that the packer writes every element of its row list), index Delete/Wipe and batch writes (batch operations are reported undecided by X-taint's flow model), rows left in a persistent index by an earlier process (a crash of an older, differently ordered version; meta blobs removed behind the store's back), recoverability outcomes for any concrete history. Shapes the analysis does not follow and reports instead of passing: helpers nested deeper than 4, recursive helpers, a helper that reports failure other than by a non-nil error or a constant false (e.g. through a field or a phi of booleans), a failure parked in a variable and tested after a loop (paths are not correlated), a scan function that decrypts the meta blobs itself instead of calling a per-blob function (undecided), more than one age.Encrypt/age.Decrypt call site (undecided).",
 		RuleDocs: map[string]string{
-			"X-taint":   "information-flow graph over package encrypt: every data argument of every call that receives storage.blobs/storage.meta (sinks), every value written to the meta index, every age.Encrypt/Decrypt key: no flow from API plaintext / index keys / decrypt output; uploaded bytes and their refs derive from an age.Encrypt target buffer, the ref from the uploaded buffer",
-			"X-fetch":   "dominance in (*storage).Fetch, decryptBlob, encryptBlob: success returns dominated by ciphertext hash comparison over the bytes read and by authenticated decryption; size and reader provenance",
-			"X-compact": "dominance in makePackedMetaBlob (upload success before RemoveBlobs; index look-up failure never reaches the removal), removed list and packed rows are two parameters built in lock-step from the same records at every call site of the packer, restart path from the constructor through readAllMetaBlobs/processEncryptedMetaBlob to index.Set, header-constant agreement between the meta writers and the parser",
-			"X-index":   "who-may-write over every sorted.KeyValue.Set in package encrypt: each index row is either replayed only from decrypted bytes that every caller fetched from the meta store, or written on the success edge of the meta-store upload of ciphertext computed from the row's refs, itself on the success edge of the blobs-store upload of the ciphertext the row names; helpers/literals judged at their call sites, deferred writes at every run-defers point; the index handle does not escape",
+			"X-taint":   "information-flow graph over package encrypt: every data argument of every call that receives storage.blobs/storage.meta (sinks), every value written to the meta index, every age.Encrypt/Decrypt key: no flow from API plaintext / index keys / decrypt output; uploaded bytes and their refs derive from an age.Encrypt target buffer, the ref (followed into helpers, and through forwarding helpers to their callers) from the uploaded buffer",
+			"X-fetch":   "ordering facts over the effective bodies of the Fetch method, the decrypt helper and the encrypt helper (helpers followed, facts carried across calls, tail calls judged at the helper's success exits): success returns have the ciphertext hash comparison over the bytes read and authenticated decryption behind them; size and reader provenance; version byte agreement",
+			"X-compact": "ordering facts over the effective body of the compaction function (upload success before RemoveBlobs; nothing after a failed index look-up reaches the removal), removed list and packed rows are two parameters built in lock-step from the same records at every call site, restart path from every constructor through the scan function and the process function to index.Set (all found by role, helpers/goroutines/methods followed), header-constant agreement between the meta writers and the parser",
+			"X-index":   "who-may-write over every sorted.KeyValue.Set in package encrypt: each index row is either replayed only from decrypted bytes that every caller fetched from the meta store, or written after the success of the meta-store upload of ciphertext computed from the row's refs, itself after the success of the blobs-store upload of the ciphertext the row names; uploads and decryption found in effective bodies, helpers/literals holding the write judged at their call sites, deferred writes at every run-defers point; the index handle does not escape",
 		},
 		Run:       runC11,
 		DesignRef: "DESIGN.md §4 C11",
-		Technique: "static analysis: package-local explicit information-flow (taint) graph over go/ssa with field-based struct locations and parameter/result binding, plus dominance (success-edge) rules, a who-may-write enumeration with backward value slices and call-site lifting, lock-step accumulator matching over phis, and constant-agreement rules",
-		LevelText: "Decides structural necessary conditions only: no explicit data flow from plaintext (API reader and refs, index keys, decrypt output) into any argument handed to the wrapped stores except through age.Encrypt; uploaded names are hashes of the uploaded ciphertext buffer; Fetch returns only after the ciphertext digest check and authenticated decryption succeeded; compaction uploads before it deletes and deletes only the records whose rows it was handed; the restart scan is wired from the constructor to the index; and every index row is written either from bytes fetched from the meta store or only after the meta blob recording it (and before that the ciphertext it names) was stored successfully, so the index never runs ahead of what a rebuild from the wrapped stores would give. Does not decide cryptographic strength, implicit flows, tamper-detection outcomes, the contents of a persistent index inherited from an earlier process, or recoverability for any concrete history.",
+		Technique: "static analysis: package-local explicit information-flow (taint) graph over go/ssa with field-based struct locations and parameter/result binding, plus interprocedural dominance rules over effective bodies (call chains with parameter->argument and result->return mapping, success/boolean-outcome summaries of helpers, tail-call expansion of success exits, failure-path reachability across helper returns), role-based anchor resolution, a who-may-write enumeration with backward value slices and call-site lifting, lock-step accumulator matching over phis and through list-pair helpers, and constant-agreement rules",
+		LevelText: "Decides structural necessary conditions only: no explicit data flow from plaintext (API reader and refs, index keys, decrypt output) into any argument handed to the wrapped stores except through age.Encrypt; uploaded names are hashes of the uploaded ciphertext buffer; Fetch returns only after the ciphertext digest check and authenticated decryption succeeded; compaction uploads before it deletes and deletes only the records whose rows it was handed; the restart scan is wired from the constructor to the index; and every index row is written either from bytes fetched from the meta store or only after the meta blob recording it (and before that the ciphertext it names) was stored successfully, so the index never runs ahead of what a rebuild from the wrapped stores would give. The conditions are stated over values and ordering, not over which function holds a statement: extracting helpers, splitting functions, turning closures into methods, inlining the small helpers and reshaping control flow leave the verdict unchanged as long as the helper reports failure to its caller. Does not decide cryptographic strength, implicit flows, tamper-detection outcomes, the contents of a persistent index inherited from an earlier process, or recoverability for any concrete history.",
 	})
 }
 
@@ -134,6 +136,10 @@ type c11Flow struct {
 	reachE      map[any]any
 	reachW      map[string]map[any]any // per store field
 	kvIface     *types.Interface
+	rolesDone   bool
+	rolesOK     bool
+	rolesV      c11Roles
+	extSet      map[ssa.CallInstruction]bool
 	iterIface   *types.Interface
 	readerIface *types.Interface
 }
@@ -912,37 +918,40 @@ func c11RuleTaint(p *Program, r *Reporter, g *c11Flow) {
 			continue
 		}
 		// forwarding helper: the store is a parameter of a top-level package function with callers in the
-		// package => judge the arguments at each caller (bound 1), where store and buffers are not merged
-		fn := c.Fn
-		wi := g.paramIndexOfNode(fn, g.node(storeArg))
-		var callers []CallSite
-		if wi >= 0 && fn.Parent() == nil {
-			for _, f := range g.fns {
-				for _, cc := range CallsIn(f, false) {
-					if cc.Callee() == fn && len(cc.Args()) == len(fn.Params) {
-						callers = append(callers, cc)
+		// package => judge the arguments at each caller (transitively, bounded), where store and buffers
+		// are not merged
+		var lift func(fn *ssa.Function, storeArg ssa.Value, actual []ssa.Value, via string, depth int)
+		lift = func(fn *ssa.Function, storeArg ssa.Value, actual []ssa.Value, via string, depth int) {
+			wi := g.paramIndexOfNode(fn, g.node(storeArg))
+			var callers []CallSite
+			if wi >= 0 && fn.Parent() == nil && depth < c11MaxDepth {
+				for _, f := range g.fns {
+					for _, cc := range CallsIn(f, false) {
+						if cc.Callee() == fn && len(cc.Args()) == len(fn.Params) && f != fn {
+							callers = append(callers, cc)
+						}
 					}
 				}
 			}
-		}
-		if len(callers) == 0 {
-			checkSink(c, fn, store, "", args)
-			continue
-		}
-		for _, cc := range callers {
-			cstore := g.wrappedStore(g.node(cc.Args()[wi]))
-			if cstore == "" {
-				continue
+			if len(callers) == 0 {
+				checkSink(c, fn, g.wrappedStore(g.node(storeArg)), via, actual)
+				return
 			}
-			actual := make([]ssa.Value, len(args))
-			for i, a := range args {
-				actual[i] = a
-				if pi := g.paramIndexOfNode(fn, g.node(a)); pi >= 0 {
-					actual[i] = cc.Args()[pi]
+			for _, cc := range callers {
+				if g.wrappedStore(g.node(cc.Args()[wi])) == "" {
+					continue
 				}
+				up := make([]ssa.Value, len(actual))
+				for i, a := range actual {
+					up[i] = a
+					if pi := g.paramIndexOfNode(fn, g.node(a)); pi >= 0 {
+						up[i] = cc.Args()[pi]
+					}
+				}
+				lift(cc.Fn, cc.Args()[wi], up, via+" via "+shortFn(fn), depth+1)
 			}
-			checkSink(c, cc.Fn, cstore, " via "+shortFn(fn), actual)
 		}
+		lift(c.Fn, storeArg, args, "", 0)
 	}
 	// W values must not leave through constructs that lose their identity
 	for _, fn := range g.fns {
@@ -1033,16 +1042,22 @@ func c11ParamName(c CallSite, i int) string {
 	return fmt.Sprintf("arg%d", j)
 }
 
-// c11RefOfSameBuffer: ref is (derived from) blob.RefFromBytes/RefFromString/RefFromHash
+// refOfSameBuffer: ref is (derived from) blob.RefFromBytes/RefFromString/RefFromHash
 // applied to bytes that come from one of the buffer objects the uploaded
-// content argument is made of.
-func c11RefOfSameBuffer(ref, content ssa.Value) (bool, string) {
-	roots := c11BufferRoots(content)
+// content argument is made of. The derivation is followed into package helpers
+// (a helper that computes the ref from a buffer parameter stands for its
+// argument).
+func (g *c11Flow) refOfSameBuffer(ref, content ssa.Value) (bool, string) {
+	roots := map[ssa.Value]bool{}
+	for r := range c11BufferRoots(content) {
+		c, _ := g.canon(r, nil, false)
+		roots[r], roots[c] = true, true
+	}
 	if len(roots) == 0 {
 		return false, "the uploaded content has no identifiable buffer"
 	}
 	foundHash := false
-	same := DependsOn(ref, func(v ssa.Value) bool {
+	same := g.dependsOnC(ref, nil, func(v ssa.Value, chain c11Chain) bool {
 		call, ok := v.(*ssa.Call)
 		if !ok {
 			return false
@@ -1053,7 +1068,8 @@ func c11RefOfSameBuffer(ref, content ssa.Value) (bool, string) {
 		}
 		foundHash = true
 		for r := range c11BufferRoots(call.Call.Args[0]) {
-			if roots[r] {
+			c, _ := g.canon(r, chain, false)
+			if roots[r] || roots[c] {
 				return true
 			}
 		}
@@ -1068,10 +1084,14 @@ func c11RefOfSameBuffer(ref, content ssa.Value) (bool, string) {
 	return false, "it hashes a different buffer"
 }
 
-// refOfSameBufferVia is c11RefOfSameBuffer, except that when both the ref and the
+// refOfSameBufferVia is refOfSameBuffer, except that when both the ref and the
 // content are parameters of fn (a ref+bytes forwarding helper) the check is made
-// at every caller of fn in the package instead (bound 1).
+// at every caller of fn in the package instead (transitively, bounded).
 func (g *c11Flow) refOfSameBufferVia(fn *ssa.Function, ref, content ssa.Value) (bool, string) {
+	return g.refOfSameBufferAt(fn, ref, content, 0)
+}
+
+func (g *c11Flow) refOfSameBufferAt(fn *ssa.Function, ref, content ssa.Value, depth int) (bool, string) {
 	refPrm, isRefPrm := originValue(ref).(*ssa.Parameter)
 	var contentPrm *ssa.Parameter
 	for root := range c11BufferRoots(content) {
@@ -1079,27 +1099,19 @@ func (g *c11Flow) refOfSameBufferVia(fn *ssa.Function, ref, content ssa.Value) (
 			contentPrm = prm
 		}
 	}
-	if !isRefPrm || contentPrm == nil || fn.Parent() != nil {
-		return c11RefOfSameBuffer(ref, content)
+	if !isRefPrm || contentPrm == nil || fn.Parent() != nil || refPrm.Parent() != fn || contentPrm.Parent() != fn || depth >= c11MaxDepth {
+		return g.refOfSameBuffer(ref, content)
 	}
-	ri, ci := -1, -1
-	for i, prm := range fn.Params {
-		if prm == refPrm {
-			ri = i
-		}
-		if prm == contentPrm {
-			ci = i
-		}
-	}
+	ri, ci := c11ParamIndex(refPrm), c11ParamIndex(contentPrm)
 	callers := 0
 	for _, f := range g.fns {
 		for _, c := range CallsIn(f, false) {
-			if c.Callee() != fn || ri < 0 || ci < 0 {
+			if c.Callee() != fn || ri < 0 || ci < 0 || len(c.Args()) != len(fn.Params) {
 				continue
 			}
 			callers++
 			args := c.Args()
-			if ok, why := c11RefOfSameBuffer(args[ri], args[ci]); !ok {
+			if ok, why := g.refOfSameBufferAt(f, args[ri], args[ci], depth+1); !ok {
 				return false, "at the caller " + shortFn(f) + " of the forwarding helper: " + why
 			}
 		}
@@ -1248,56 +1260,1186 @@ func (g *c11Flow) paramIndexOfNode(fn *ssa.Function, n any) int {
 	return -1
 }
 
-// failureLeaks explores the paths after call on which its error result is
-// non-nil and returns the exits that return a possibly-nil error.
-func c11FailureLeaks(call *ssa.Call) ([]Leak, string) {
+// ---------------------------------------------------------------------------
+// Effective bodies
+//
+// A rule that looks for a site "in function F" looks in F's effective body: F
+// plus, transitively, the package functions, methods and function literals F
+// calls statically. A site found that way carries the chain of calls that
+// leads to it; values are mapped through the chain (a parameter of a helper
+// stands for the caller's argument, the result of a helper call for what the
+// helper returns on success), and ordering facts are carried across the calls
+// (holds): a call of helper H counts as "P happened" where H's failure is
+// excluded, if every exit of H that is compatible with what the caller knows
+// has P behind it.
+
+const c11MaxDepth = 4
+
+// c11Link is one step of a chain: call site c (in c.Fn) enters function to.
+// cb: to is a function value handed to a callee outside the package (it runs
+// when and as often as that callee likes).
+type c11Link struct {
+	CallSite
+	to *ssa.Function
+	cb bool
+}
+
+func (l c11Link) sync() bool { return !l.cb && l.Value() != nil }
+
+type c11Chain []c11Link
+
+func (ch c11Chain) with(l c11Link) c11Chain {
+	out := make(c11Chain, len(ch)+1)
+	copy(out, ch)
+	out[len(ch)] = l
+	return out
+}
+
+func (ch c11Chain) has(fn *ssa.Function) bool {
+	for _, l := range ch {
+		if l.to == fn || l.Fn == fn {
+			return true
+		}
+	}
+	return false
+}
+
+func (ch c11Chain) sync() bool {
+	for _, l := range ch {
+		if !l.sync() {
+			return false
+		}
+	}
+	return true
+}
+
+// via renders the chain for messages.
+func (ch c11Chain) via() string {
+	if len(ch) == 0 {
+		return ""
+	}
+	var s []string
+	for _, l := range ch {
+		s = append(s, shortFn(l.to))
+	}
+	return " (in " + strings.Join(s, " > ") + ")"
+}
+
+// c11At is an instruction seen from a root function through a chain of calls:
+// chain[0].Fn is the root, in lives in chain[len-1].to (in the root when the
+// chain is empty).
+type c11At struct {
+	chain c11Chain
+	in    ssa.Instruction
+	// nilVal: an error value known to be nil when the site is reached for the
+	// purpose of the question asked (the error a success exit returns)
+	nilVal ssa.Value
+}
+
+// c11ECall is a call site of an effective body.
+type c11ECall struct {
+	CallSite
+	chain c11Chain
+}
+
+func (e c11ECall) at() c11At { return c11At{chain: e.chain, in: e.Instr} }
+
+func (g *c11Flow) followable(fn *ssa.Function) bool {
+	return fn != nil && g.inPkg[fn] && fn.Blocks != nil
+}
+
+// c11FuncArgs lists the package functions handed to call c as arguments:
+// function literals, declared functions and bound methods.
+func (g *c11Flow) funcArgs(c CallSite) []*ssa.Function {
+	var out []*ssa.Function
+	for _, a := range c.Common().Args {
+		if _, isFunc := a.Type().Underlying().(*types.Signature); !isFunc {
+			continue
+		}
+		var fn *ssa.Function
+		switch v := originValue(a).(type) {
+		case *ssa.MakeClosure:
+			fn, _ = v.Fn.(*ssa.Function)
+			if fn != nil && fn.Blocks != nil && !g.inPkg[fn] && len(v.Bindings) == 1 {
+				// bound method wrapper: the method it forwards to
+				if obj, ok := fn.Object().(*types.Func); ok {
+					if m := g.p.SSA.FuncValue(obj); m != nil {
+						fn = m
+					}
+				}
+			}
+		case *ssa.Function:
+			fn = v
+		}
+		if g.followable(fn) {
+			out = append(out, fn)
+		}
+	}
+	return out
+}
+
+// effCalls lists the call sites of root's effective body. stop: functions
+// that are not entered (their call sites are listed, their bodies are not).
+// With callbacks, functions handed to callees outside the package are entered
+// too (their links have cb set).
+func (g *c11Flow) effCalls(root *ssa.Function, stop map[*ssa.Function]bool, callbacks bool) []c11ECall {
+	calls, _ := g.effBody(root, stop, callbacks)
+	return calls
+}
+
+// effFuncs lists the functions of root's effective body (root first), each
+// with the chain that enters it.
+func (g *c11Flow) effFuncs(root *ssa.Function, stop map[*ssa.Function]bool, callbacks bool) []c11Root {
+	_, funcs := g.effBody(root, stop, callbacks)
+	return funcs
+}
+
+func (g *c11Flow) effBody(root *ssa.Function, stop map[*ssa.Function]bool, callbacks bool) ([]c11ECall, []c11Root) {
+	var out []c11ECall
+	var funcs []c11Root
+	var walk func(fn *ssa.Function, chain c11Chain)
+	walk = func(fn *ssa.Function, chain c11Chain) {
+		funcs = append(funcs, c11Root{fn, chain, true})
+		for _, c := range CallsIn(fn, false) {
+			out = append(out, c11ECall{c, chain})
+			if len(chain) >= c11MaxDepth {
+				continue
+			}
+			if callee := c.Callee(); g.followable(callee) {
+				if !stop[callee] && callee != root && !chain.has(callee) && len(c.Args()) == len(callee.Params) {
+					walk(callee, chain.with(c11Link{c, callee, false}))
+				}
+				continue
+			}
+			if callbacks {
+				for _, lit := range g.funcArgs(c) {
+					if !stop[lit] && lit != root && !chain.has(lit) {
+						walk(lit, chain.with(c11Link{c, lit, true}))
+					}
+				}
+			}
+		}
+	}
+	walk(root, nil)
+	return out, funcs
+}
+
+// closedCallers lists the call sites of fn in the package; closed=false when
+// fn may also be entered from elsewhere (exported, used as a value, reachable
+// through an interface, handed to a callee as a callback).
+func (g *c11Flow) closedCallers(fn *ssa.Function) (sites []CallSite, closed bool) {
+	closed = true
+	if fn.Parent() == nil {
+		if token.IsExported(fn.Name()) {
+			closed = false
+		}
+		if len(g.p.FuncValueUses(fn)) > 0 || len(g.p.InvokeSites(fn)) > 0 {
+			closed = false
+		}
+	}
+	for _, f := range g.fns {
+		for _, c := range CallsIn(f, false) {
+			if c.Callee() == fn && len(c.Args()) == len(fn.Params) {
+				sites = append(sites, c)
+				continue
+			}
+			for _, lit := range g.funcArgs(c) {
+				if lit == fn {
+					closed = false
+				}
+			}
+		}
+	}
+	if fn.Parent() != nil {
+		// every use of the closure value must be one of the call sites found
+		for _, b := range fn.Parent().Blocks {
+			for _, in := range b.Instrs {
+				mc, ok := in.(*ssa.MakeClosure)
+				if !ok || mc.Fn != ssa.Value(fn) {
+					continue
+				}
+				if refs := mc.Referrers(); refs != nil {
+					for _, rf := range *refs {
+						switch x := rf.(type) {
+						case *ssa.DebugRef, *ssa.Store:
+						case ssa.CallInstruction:
+							if x.Common().Value != ssa.Value(mc) {
+								closed = false
+							}
+						default:
+							closed = false
+						}
+					}
+				}
+			}
+		}
+	}
+	return sites, closed
+}
+
+func c11ParamIndex(prm *ssa.Parameter) int {
+	for i, q := range prm.Parent().Params {
+		if q == prm {
+			return i
+		}
+	}
+	return -1
+}
+
+func c11ValueFn(v ssa.Value) *ssa.Function {
+	switch x := v.(type) {
+	case *ssa.Parameter:
+		return x.Parent()
+	case *ssa.FreeVar:
+		return x.Parent()
+	case ssa.Instruction:
+		return x.Parent()
+	}
+	return nil
+}
+
+// c11IsZero: a value that stands for "nothing" on a return (nil, zero constant,
+// the zero value of a struct).
+func c11IsZero(v ssa.Value) bool {
+	switch x := v.(type) {
+	case *ssa.Const:
+		if x.Value == nil {
+			return true
+		}
+		switch x.Value.Kind() {
+		case constant.Int:
+			n, ok := constant.Int64Val(x.Value)
+			return ok && n == 0
+		case constant.String:
+			return constant.StringVal(x.Value) == ""
+		case constant.Bool:
+			return !constant.BoolVal(x.Value)
+		}
+	case *ssa.UnOp:
+		if x.Op == token.MUL {
+			if al, ok := x.X.(*ssa.Alloc); ok && len(c11WritesInto(al)) == 0 {
+				return true
+			}
+		}
+	}
+	return false
+}
+
+// successReturns lists the returns of fn that may report success, per
+// incoming edge when the error is merged by a phi (all returns when fn has no
+// error result).
+func c11SuccessReturns(fn *ssa.Function) []NilReturn {
+	if ErrResultIndex(fn) >= 0 {
+		return MaybeNilErrorReturns(fn)
+	}
+	var out []NilReturn
+	for _, ri := range Returns(fn) {
+		out = append(out, NilReturn{ri.Ret, nil, ri.Ret.Block()})
+	}
+	return out
+}
+
+func c11ResolvedResults(fn *ssa.Function) map[*ssa.Return][]ssa.Value {
+	m := map[*ssa.Return][]ssa.Value{}
+	for _, ri := range Returns(fn) {
+		m[ri.Ret] = ri.Results
+	}
+	return m
+}
+
+// soleResult: the one value fn returns as result idx on its success returns
+// (zero values aside); nil when there are several.
+func (g *c11Flow) soleResult(fn *ssa.Function, idx int) ssa.Value {
+	res := c11ResolvedResults(fn)
+	var found ssa.Value
+	for _, nr := range c11SuccessReturns(fn) {
+		rs := res[nr.Ret]
+		if idx >= len(rs) {
+			return nil
+		}
+		v := rs[idx]
+		if ph, ok := v.(*ssa.Phi); ok && ph.Block() == nr.Ret.Block() && nr.From != nr.Ret.Block() {
+			for i, pred := range ph.Block().Preds {
+				if pred == nr.From {
+					v = ph.Edges[i]
+				}
+			}
+		}
+		if c11IsZero(v) {
+			continue
+		}
+		if found != nil && !sameOrigin(found, v) {
+			return nil
+		}
+		found = v
+	}
+	return found
+}
+
+// c11CallOfResult: v is (an extract of) the result of a call; returns the call
+// and the result index.
+func c11CallOfResult(v ssa.Value) (*ssa.Call, int) {
+	switch x := v.(type) {
+	case *ssa.Call:
+		return x, 0
+	case *ssa.Extract:
+		if call, ok := x.Tuple.(*ssa.Call); ok {
+			return call, x.Index
+		}
+	}
+	return nil, 0
+}
+
+// canon follows v (living in the function the chain leads to) to the value it
+// stands for: through loads of single-store variables, from a parameter of a
+// helper to the argument at the chain's call site (without a chain, and with
+// up set: to the argument of the helper's only call site), from the result of
+// a package helper call to what the helper returns on success.
+func (g *c11Flow) canon(v ssa.Value, chain c11Chain, up bool) (ssa.Value, c11Chain) {
+	for i := 0; i < 24 && v != nil; i++ {
+		o := originValue(v)
+		fn := c11ValueFn(o)
+		if fn == nil {
+			return o, nil // constants, globals: the same wherever they are seen from
+		}
+		if len(chain) > 0 && chain[0].Fn == fn {
+			chain = nil
+		} else {
+			// the value may live further up (captured variable of a literal)
+			for k := len(chain) - 1; k >= 0; k-- {
+				if chain[k].to == fn {
+					chain = chain[:k+1]
+					break
+				}
+				if chain[k].Fn == fn {
+					chain = chain[:k]
+					break
+				}
+			}
+		}
+		switch x := o.(type) {
+		case *ssa.Parameter:
+			idx := c11ParamIndex(x)
+			if n := len(chain); n > 0 {
+				if l := chain[n-1]; l.to == x.Parent() && !l.cb && idx >= 0 && idx < len(l.Args()) {
+					v, chain = l.Args()[idx], chain[:n-1]
+					continue
+				}
+				return o, chain
+			}
+			if up && idx >= 0 {
+				if sites, closed := g.closedCallers(x.Parent()); closed && len(sites) == 1 {
+					v = sites[0].Args()[idx]
+					continue
+				}
+			}
+			return o, chain
+		case *ssa.Call, *ssa.Extract:
+			call, idx := c11CallOfResult(o)
+			if call == nil {
+				return o, chain
+			}
+			cs := CallSite{call.Parent(), call}
+			h := cs.Callee()
+			if !g.followable(h) || len(chain) >= c11MaxDepth+2 || chain.has(h) || len(cs.Args()) != len(h.Params) {
+				return o, chain
+			}
+			r := g.soleResult(h, idx)
+			if r == nil {
+				return o, chain
+			}
+			v, chain = r, chain.with(c11Link{cs, h, false})
+			continue
+		}
+		return o, chain
+	}
+	return v, chain
+}
+
+func c11SameChain(a, b c11Chain) bool {
+	if len(a) != len(b) {
+		return false
+	}
+	for i := range a {
+		if a[i].Instr != b[i].Instr || a[i].to != b[i].to {
+			return false
+		}
+	}
+	return true
+}
+
+// same: the two values (each seen, from one common root, through its chain)
+// denote the same run-time value: the same canonical value reached through the
+// same calls (a value inside a helper is a different value per call of the helper).
+func (g *c11Flow) same(a ssa.Value, ca c11Chain, b ssa.Value, cb c11Chain) bool {
+	if a == nil || b == nil {
+		return false
+	}
+	x, cx := g.canon(a, ca, false)
+	y, cy := g.canon(b, cb, false)
+	return sameOrigin(x, y) && c11SameChain(cx, cy)
+}
+
+// sameNode is same up to the identity conversions the flow graph collapses
+// (interface conversions, slicing, address arithmetic).
+func (g *c11Flow) sameNode(a ssa.Value, ca c11Chain, b ssa.Value, cb c11Chain) bool {
+	if a == nil || b == nil {
+		return false
+	}
+	x, cx := g.canon(a, ca, false)
+	y, cy := g.canon(b, cb, false)
+	nx, ny := g.node(x), g.node(y)
+	if nx == nil || nx != ny {
+		return false
+	}
+	if _, isLoc := nx.(c11Loc); isLoc {
+		return true // field-based location
+	}
+	return c11SameChain(cx, cy)
+}
+
+// cnode: the flow-graph node of the canonical value.
+func (g *c11Flow) cnode(v ssa.Value, chain c11Chain) any {
+	x, _ := g.canon(v, chain, false)
+	return g.node(x)
+}
+
+// cflows: data may flow from a to b (canonical values).
+func (g *c11Flow) cflows(a ssa.Value, ca c11Chain, b ssa.Value, cb c11Chain, kinds map[c11EdgeKind]bool) bool {
+	if a == nil || b == nil {
+		return false
+	}
+	x, _ := g.canon(a, ca, false)
+	y, _ := g.canon(b, cb, false)
+	return g.flows(x, y, kinds) || g.flows(x, b, kinds) || g.flows(a, y, kinds) || g.flows(a, b, kinds)
+}
+
+// storeOf: the wrapped store a call is applied to, resolved through the chain
+// (a forwarding helper takes the store as a parameter).
+func (g *c11Flow) storeOf(c c11ECall) string {
+	for _, a := range c.Args() {
+		if s := g.wrappedStore(g.node(a)); s != "" {
+			if !strings.Contains(s, "|") {
+				return s
+			}
+			if t := g.wrappedStore(g.cnode(a, c.chain)); t != "" {
+				return t
+			}
+			return s
+		}
+	}
+	return ""
+}
+
+// --- events
+
+type c11Want int
+
+const (
+	c11Ran   c11Want = iota // the call has been executed (whatever its outcome)
+	c11Done                 // the call has returned without error
+	c11True                 // the boolean value was true
+	c11False                // the boolean value was false
+)
+
+// c11Event: something that must have happened before a site is reached. For
+// c11Ran/c11Done at.in is the call; for c11True/c11False val is the boolean
+// value (a call result or a comparison) and at.in the instruction defining it.
+type c11Event struct {
+	at   c11At
+	want c11Want
+	val  ssa.Value
+}
+
+func c11CallEvent(c c11ECall, want c11Want) c11Event {
+	ev := c11Event{at: c.at(), want: want}
+	if want == c11True || want == c11False {
+		if v := c.Value(); v != nil {
+			ev.val = v
+		}
+	}
+	return ev
+}
+
+func c11StripNot(cond ssa.Value) (ssa.Value, bool) {
+	neg := false
+	for i := 0; i < 8; i++ {
+		u, ok := cond.(*ssa.UnOp)
+		if !ok || u.Op != token.NOT {
+			break
+		}
+		cond, neg = u.X, !neg
+	}
+	return cond, neg
+}
+
+// c11BoolKnown: what the branch conditions that dominate block b say about the
+// boolean value val.
+func c11BoolKnown(b *ssa.BasicBlock, val ssa.Value) (known, isTrue bool) {
+	val, vneg := c11StripNot(val)
+	for _, f := range FactsAt(b) {
+		cond, neg := c11StripNot(f.Cond)
+		if cond == val || originValue(cond) == originValue(val) {
+			return true, (f.Val != neg) != vneg
+		}
+	}
+	return false, false
+}
+
+// c11SucceededAt: call precedes target and its error result (if any) is known
+// nil there: by the branch conditions, or because it is nilVal.
+func c11SucceededAt(call *ssa.Call, target ssa.Instruction, nilVal ssa.Value) (bool, string) {
+	ok, why := SuccessDominates(call, target)
+	if ok || nilVal == nil || !Precedes(call, target) {
+		return ok, why
+	}
+	if ev, hasErr, discarded := ErrValue(call); hasErr && !discarded && sameOrigin(ev, nilVal) {
+		return true, ""
+	}
+	return false, why
+}
+
+func c11LocalHolds(ev c11Event, target ssa.Instruction, nilVal ssa.Value) (bool, string) {
+	if ev.at.in.Parent() != target.Parent() {
+		return false, "the event and the site are in different functions"
+	}
+	switch ev.want {
+	case c11Ran:
+		if Precedes(ev.at.in, target) {
+			return true, ""
+		}
+		return false, "the call does not precede the site on every path"
+	case c11Done:
+		call, ok := ev.at.in.(*ssa.Call)
+		if !ok {
+			return false, "the call is started with go or deferred"
+		}
+		return c11SucceededAt(call, target, nilVal)
+	default:
+		if ev.val == nil {
+			return false, "no boolean value"
+		}
+		if k, isTrue := c11BoolKnown(target.Block(), ev.val); k {
+			if isTrue == (ev.want == c11True) {
+				return true, ""
+			}
+			return false, "the site is on the opposite branch of the test"
+		}
+		return false, "the site is not guarded by the test"
+	}
+}
+
+// holds: on every path on which control reaches site, the event has happened
+// before. Both are seen from the same root.
+func (g *c11Flow) holds(ev c11Event, site c11At, depth int) (bool, string) {
+	ec, sc := ev.at.chain, site.chain
+	for len(ec) > 0 && len(sc) > 0 && ec[0].Instr == sc[0].Instr && ec[0].to == sc[0].to {
+		ec, sc = ec[1:], sc[1:]
+	}
+	target, nilVal := site.in, site.nilVal
+	if len(sc) > 0 {
+		target, nilVal = sc[0].Instr, nil
+	}
+	if len(ec) == 0 {
+		return c11LocalHolds(ev, target, nilVal)
+	}
+	if !ec[0].sync() {
+		return false, "it happens in " + shortFn(ec[0].to) + ", which is started with go, deferred or run as a callback"
+	}
+	if depth > c11MaxDepth+2 {
+		return false, "helper nesting too deep"
+	}
+	inner := ev
+	inner.at = c11At{chain: ec[1:], in: ev.at.in}
+	return g.callImplies(ec[0], inner, target, nilVal, depth+1)
+}
+
+// callImplies: call h (of a package helper) precedes target, and every exit of
+// the helper that is compatible with what is known about h's results at target
+// has the inner event behind it.
+func (g *c11Flow) callImplies(l c11Link, inner c11Event, target ssa.Instruction, nilVal ssa.Value, depth int) (bool, string) {
+	h := l.Value()
+	H := l.to
+	name := shortFn(H)
+	if h.Parent() != target.Parent() {
+		return false, "the call of " + name + " and the site are in different functions"
+	}
+	if !Precedes(h, target) {
+		return false, "the call of " + name + " does not precede the site on every path"
+	}
+	errIdx := ErrResultIndex(H)
+	errNil := false
+	if errIdx >= 0 {
+		errNil, _ = c11SucceededAt(h, target, nilVal)
+	}
+	// boolean results of h known at target
+	boolKnown := map[int]bool{}
+	res := H.Signature.Results()
+	for i := 0; i < res.Len(); i++ {
+		if b, ok := res.At(i).Type().Underlying().(*types.Basic); ok && b.Kind() == types.Bool {
+			if rv := ResultValue(h, i); rv != nil {
+				if k, isTrue := c11BoolKnown(target.Block(), rv); k {
+					boolKnown[i] = isTrue
+				}
+			}
+		}
+	}
+	resolved := c11ResolvedResults(H)
+	var exits []NilReturn
+	if errNil {
+		exits = MaybeNilErrorReturns(H)
+	} else {
+		for _, ri := range Returns(H) {
+			exits = append(exits, NilReturn{ri.Ret, nil, ri.Ret.Block()})
+		}
+	}
+	if len(exits) == 0 {
+		return false, name + " has no exit that is compatible with the site"
+	}
+nextExit:
+	for _, x := range exits {
+		rs := resolved[x.Ret]
+		for i, known := range boolKnown {
+			if i >= len(rs) {
+				continue
+			}
+			rv := rs[i]
+			if ph, ok := rv.(*ssa.Phi); ok && ph.Block() == x.Ret.Block() && x.From != x.Ret.Block() {
+				for k, pred := range ph.Block().Preds {
+					if pred == x.From {
+						rv = ph.Edges[k]
+					}
+				}
+			}
+			if k, ok := rv.(*ssa.Const); ok && k.Value != nil && k.Value.Kind() == constant.Bool {
+				if constant.BoolVal(k.Value) != known {
+					continue nextExit // the caller knows this exit was not taken
+				}
+				continue
+			}
+			// the helper returns the tested value itself
+			if len(inner.at.chain) == 0 && inner.val != nil && (inner.want == c11True || inner.want == c11False) {
+				a, aneg := c11StripNot(rv)
+				b, bneg := c11StripNot(inner.val)
+				if a == b || originValue(a) == originValue(b) {
+					if (known != (aneg != bneg)) == (inner.want == c11True) {
+						continue nextExit
+					}
+					return false, name + " returns the outcome of the test, and the site is on the branch where it failed"
+				}
+			}
+		}
+		xs := c11At{in: c11LastInstr(x.From)}
+		if errNil {
+			xs.nilVal = x.Val // the caller knows the error this exit returns is nil
+		}
+		ok, why := g.holds(inner, xs, depth)
+		if !ok {
+			if errIdx >= 0 && !errNil {
+				return false, "the site is not on the success edge of " + name + ", and " + name + " can return without it (" + why + ")"
+			}
+			return false, name + " can return to the site without it (" + why + ")"
+		}
+	}
+	return true, ""
+}
+
+// --- success exits
+
+type c11Exit struct {
+	at      c11At
+	ret     *ssa.Return
+	results []ssa.Value
+	errVal  ssa.Value
+	fn      *ssa.Function
+}
+
+func (g *c11Flow) successExits(fn *ssa.Function, chain c11Chain) []c11Exit {
+	res := c11ResolvedResults(fn)
+	var out []c11Exit
+	for _, nr := range c11SuccessReturns(fn) {
+		out = append(out, c11Exit{c11At{chain: chain, in: c11LastInstr(nr.From), nilVal: nr.Val}, nr.Ret, res[nr.Ret], nr.Val, fn})
+	}
+	return out
+}
+
+// exitOK: check holds at exit x; when it does not and x merely forwards the
+// outcome of a package helper call (a tail call: the returned error is the
+// helper's), the helper's own success exits are examined instead.
+func (g *c11Flow) exitOK(x c11Exit, depth int, check func(c11Exit) (bool, string)) (bool, string) {
+	ok, why := check(x)
+	if ok || depth >= c11MaxDepth || x.errVal == nil {
+		return ok, why
+	}
+	call, idx := c11CallOfResult(originValue(x.errVal))
+	if call == nil || call.Parent() != x.fn {
+		return false, why
+	}
+	cs := CallSite{x.fn, call}
+	h := cs.Callee()
+	if !g.followable(h) || ErrResultIndex(h) != idx || x.at.chain.has(h) || len(cs.Args()) != len(h.Params) {
+		return false, why
+	}
+	inner := g.successExits(h, x.at.chain.with(c11Link{cs, h, false}))
+	if len(inner) == 0 {
+		return false, why
+	}
+	for _, y := range inner {
+		if ok2, why2 := g.exitOK(y, depth+1, check); !ok2 {
+			return false, why + "; nor at the success exits of " + shortFn(h) + ", whose outcome is returned (" + why2 + ")"
+		}
+	}
+	return true, ""
+}
+
+// --- what happens after a failure
+
+type c11FailLevel struct {
+	fn     *ssa.Function
+	chain  c11Chain // from the root to fn
+	reach  map[ssa.Instruction]bool
+	silent []*ssa.Return // returns reachable after the failure that do not report it
+}
+
+// c11ReachAssuming lists the instructions reachable after start; at an If whose
+// condition assume decides only that branch is taken.
+func c11ReachAssuming(start ssa.Instruction, assume func(cond ssa.Value) (known, val bool)) map[ssa.Instruction]bool {
+	out := map[ssa.Instruction]bool{}
+	seen := map[*ssa.BasicBlock]bool{}
+	var walk func(b *ssa.BasicBlock, from int)
+	walk = func(b *ssa.BasicBlock, from int) {
+		for i := from; i < len(b.Instrs); i++ {
+			in := b.Instrs[i]
+			out[in] = true
+			if ifi, ok := in.(*ssa.If); ok && assume != nil && len(b.Succs) == 2 {
+				if known, val := assume(ifi.Cond); known {
+					s := b.Succs[1]
+					if val {
+						s = b.Succs[0]
+					}
+					if !seen[s] {
+						seen[s] = true
+						walk(s, 0)
+					}
+					return
+				}
+			}
+		}
+		for _, s := range b.Succs {
+			if !seen[s] {
+				seen[s] = true
+				walk(s, 0)
+			}
+		}
+	}
+	walk(start.Block(), instrIndex(start)+1)
+	return out
+}
+
+// afterFailure computes what may execute after call x (seen from a root) has
+// failed, function by function from the one containing x up to the root: in
+// each, the branches that test the failure are followed on the failure side
+// only. A helper whose every exit reachable that way reports the failure (a
+// non-nil error or a constant false) lets its caller tell; otherwise the
+// caller continues as if nothing had happened.
+func (g *c11Flow) afterFailure(x c11At) (levels []c11FailLevel, why string) {
+	call, ok := x.in.(*ssa.Call)
+	if !ok {
+		return nil, "the call is started with go or deferred"
+	}
 	ev, hasErr, discarded := ErrValue(call)
 	if !hasErr {
-		return nil, "call has no error result"
+		return nil, "the call has no error result"
 	}
-	if discarded {
-		return nil, "the error result is discarded"
+	var assume func(cond ssa.Value) (bool, bool)
+	if !discarded {
+		assume = c11AssumeNonNil(ev)
 	}
-	fn := call.Parent()
-	idx := ErrResultIndex(fn)
-	if idx < 0 {
-		return nil, "enclosing function returns no error"
+	start := ssa.Instruction(call)
+	failVal := ev
+	chain := x.chain
+	for {
+		fn := start.Parent()
+		lv := c11FailLevel{fn: fn, chain: chain, reach: c11ReachAssuming(start, assume)}
+		resolved := c11ResolvedResults(fn)
+		errIdx := ErrResultIndex(fn)
+		byErr, byBool, nRet := true, true, 0
+		boolIdx := -1
+		for in := range lv.reach {
+			ret, isRet := in.(*ssa.Return)
+			if !isRet || ret.Block() == fn.Recover {
+				continue
+			}
+			nRet++
+			rs := resolved[ret]
+			okErr := false
+			if errIdx >= 0 && errIdx < len(rs) {
+				v := rs[errIdx]
+				if failVal != nil && sameOrigin(v, failVal) || isNonNilErrorExpr(v) {
+					okErr = true
+				} else if k, isNil := NilFact(ret.Block(), v); k && !isNil {
+					okErr = true
+				}
+			}
+			okBool := false
+			for i, v := range rs {
+				if k, isK := v.(*ssa.Const); isK && k.Value != nil && k.Value.Kind() == constant.Bool && !constant.BoolVal(k.Value) {
+					if boolIdx < 0 || boolIdx == i {
+						okBool, boolIdx = true, i
+					}
+				}
+			}
+			if !okErr {
+				byErr = false
+			}
+			if !okBool {
+				byBool = false
+			}
+			if !okErr && !okBool {
+				lv.silent = append(lv.silent, ret)
+			}
+		}
+		sort.Slice(lv.silent, func(i, j int) bool { return lv.silent[i].Block().Index < lv.silent[j].Block().Index })
+		levels = append(levels, lv)
+		if len(chain) == 0 || nRet == 0 {
+			return levels, ""
+		}
+		l := chain[len(chain)-1]
+		chain = chain[:len(chain)-1]
+		start = l.Instr
+		assume, failVal = nil, nil
+		hv := l.Value()
+		if hv == nil || l.cb {
+			continue // started with go / deferred / a callback: the caller goes on regardless
+		}
+		switch {
+		case byErr:
+			if ev2, has, disc := ErrValue(hv); has && !disc {
+				assume, failVal = c11AssumeNonNil(ev2), ev2
+			}
+		case byBool && boolIdx >= 0:
+			if rv := ResultValue(hv, boolIdx); rv != nil {
+				assume = func(cond ssa.Value) (bool, bool) {
+					c, neg := c11StripNot(cond)
+					if c == rv || originValue(c) == originValue(rv) {
+						return true, neg // the value is false
+					}
+					return false, false
+				}
+			}
+		}
 	}
-	resolved := map[*ssa.Return][]ssa.Value{}
-	for _, ri := range Returns(fn) {
-		resolved[ri.Ret] = ri.Results
+}
+
+func c11AssumeNonNil(ev ssa.Value) func(cond ssa.Value) (bool, bool) {
+	return func(cond ssa.Value) (bool, bool) {
+		if k, isNil := condSaysNil(cond, true, ev); k {
+			return true, !isNil
+		}
+		return false, false
 	}
-	leaks := LeakingExits(PathQuery{
-		Start: call,
-		Stop:  func(ssa.Instruction) bool { return false },
-		Assume: func(cond ssa.Value) (bool, bool) {
-			if k, isNil := condSaysNil(cond, true, ev); k {
-				// cond==true says ev is nil? we know ev is non-nil
-				return true, !isNil
-			}
-			return false, false
-		},
-		ExitOK: func(exit ssa.Instruction) bool {
-			ret, ok := exit.(*ssa.Return)
-			if !ok {
-				return true
-			}
-			res := resolved[ret]
-			if res == nil || idx >= len(res) {
-				return false
-			}
-			v := res[idx]
-			if sameOrigin(v, ev) || isNonNilErrorExpr(v) {
-				return true
-			}
-			if k, isNil := NilFact(ret.Block(), v); k && !isNil {
-				return true
+}
+
+// targetAt: the instruction of fn (entered through chain) through which site
+// is reached, nil when site is not reached through that function.
+func c11TargetAt(site c11At, fn *ssa.Function, chain c11Chain) ssa.Instruction {
+	if len(site.chain) < len(chain) {
+		return nil
+	}
+	for i := range chain {
+		if site.chain[i].Instr != chain[i].Instr {
+			return nil
+		}
+	}
+	if len(site.chain) == len(chain) {
+		if site.in.Parent() == fn {
+			return site.in
+		}
+		return nil
+	}
+	if l := site.chain[len(chain)]; l.Fn == fn {
+		return l.Instr
+	}
+	return nil
+}
+
+// --- interprocedural backward slice
+
+// dependsOn: v (seen through chain) is computed from a value satisfying
+// target. Like DependsOn, continued into package helpers: from the result of a
+// helper call into what the helper returns, from a helper's parameter to the
+// argument of the call that entered it.
+func (g *c11Flow) dependsOn(v ssa.Value, chain c11Chain, target func(ssa.Value) bool) bool {
+	return g.dependsOnC(v, chain, func(v ssa.Value, _ c11Chain) bool { return target(v) })
+}
+
+// dependsOnC is dependsOn with a target that is also told the chain through
+// which the value is seen.
+func (g *c11Flow) dependsOnC(v ssa.Value, chain c11Chain, target func(ssa.Value, c11Chain) bool) bool {
+	type key struct {
+		v ssa.Value
+		n int
+	}
+	seen := map[key]bool{}
+	var walk func(v ssa.Value, chain c11Chain, depth int) bool
+	walk = func(v ssa.Value, chain c11Chain, depth int) bool {
+		if v == nil || depth > 80 {
+			return false
+		}
+		k := key{v, len(chain)}
+		if seen[k] {
+			return false
+		}
+		seen[k] = true
+		if target(v, chain) {
+			return true
+		}
+		switch x := v.(type) {
+		case *ssa.Const, *ssa.Function, *ssa.Builtin, *ssa.Global:
+			return false
+		case *ssa.Parameter:
+			if n := len(chain); n > 0 {
+				if l := chain[n-1]; l.to == x.Parent() && !l.cb {
+					if idx := c11ParamIndex(x); idx >= 0 && idx < len(l.Args()) {
+						return walk(l.Args()[idx], chain[:n-1], depth+1)
+					}
+				}
 			}
 			return false
-		},
-		IgnorePanics: true,
-	})
-	return leaks, ""
+		case *ssa.FreeVar:
+			if b := bindingOf(x); b != nil {
+				for n := len(chain); n > 0; n-- {
+					if chain[n-1].to == x.Parent() {
+						return walk(b, chain[:n-1], depth+1)
+					}
+				}
+				return walk(b, chain, depth+1)
+			}
+			return false
+		case *ssa.UnOp:
+			if x.Op == token.MUL {
+				if cell, ok := varOf(x.X); ok {
+					if cell != x.X && target(cell, chain) {
+						return true
+					}
+					for _, st := range storesTo(cell) {
+						ch := chain
+						if fn := st.Parent(); fn != x.Parent() {
+							for n := len(ch); n > 0; n-- {
+								if ch[n-1].Fn == fn {
+									ch = ch[:n-1]
+									break
+								}
+							}
+						}
+						if walk(st.Val, ch, depth+1) {
+							return true
+						}
+					}
+				}
+			}
+		case *ssa.Alloc:
+			// a local whose address is used (a struct whose fields are selected, an array that is
+			// filled): what is stored into it or into its parts, what calls that are handed it may write
+			for _, in := range c11WritesInto(x) {
+				switch y := in.(type) {
+				case *ssa.Store:
+					if walk(y.Val, chain, depth+1) {
+						return true
+					}
+				case ssa.CallInstruction:
+					for _, a := range (CallSite{x.Parent(), y}).Args() {
+						if a != ssa.Value(x) && walk(a, chain, depth+1) {
+							return true
+						}
+					}
+				}
+			}
+			return false
+		case *ssa.Call, *ssa.Extract:
+			call, idx := c11CallOfResult(x)
+			if call != nil {
+				cs := CallSite{call.Parent(), call}
+				if h := cs.Callee(); g.followable(h) && len(chain) < c11MaxDepth+2 && !chain.has(h) && len(cs.Args()) == len(h.Params) {
+					if _, isCall := x.(*ssa.Call); isCall && call.Call.Signature().Results().Len() > 1 {
+						idx = -1
+					}
+					inner := chain.with(c11Link{cs, h, false})
+					for _, ri := range Returns(h) {
+						for i, rv := range ri.Results {
+							if (idx < 0 || i == idx) && walk(rv, inner, depth+1) {
+								return true
+							}
+						}
+					}
+					return false
+				}
+			}
+		}
+		if in, ok := v.(ssa.Instruction); ok {
+			for _, op := range in.Operands(nil) {
+				if *op != nil && walk(*op, chain, depth+1) {
+					return true
+				}
+			}
+		}
+		return false
+	}
+	return walk(v, chain, 0)
+}
+
+// rootsOf walks up from fn to the functions in whose effective body has(root)
+// holds: fn itself when it does, else (fn closed) each of its callers,
+// transitively. The chain leads from the root down to fn. When no such
+// function exists, fn itself is returned (found=false).
+type c11Root struct {
+	fn    *ssa.Function
+	chain c11Chain
+	found bool
+}
+
+func (g *c11Flow) rootsOf(fn *ssa.Function, has func(root *ssa.Function) bool) []c11Root {
+	var out []c11Root
+	var up func(cur *ssa.Function, below c11Chain, depth int) bool
+	up = func(cur *ssa.Function, below c11Chain, depth int) bool {
+		if has(cur) {
+			out = append(out, c11Root{cur, below, true})
+			return true
+		}
+		if depth >= c11MaxDepth {
+			return false
+		}
+		sites, closed := g.closedCallers(cur)
+		if !closed || len(sites) == 0 {
+			return false
+		}
+		n := len(out)
+		for _, cs := range sites {
+			if cs.Fn == cur || below.has(cs.Fn) {
+				out = out[:n]
+				return false
+			}
+			chain := append(c11Chain{{cs, cur, false}}, below...)
+			if !up(cs.Fn, chain, depth+1) {
+				out = out[:n]
+				return false
+			}
+		}
+		return true
+	}
+	if !up(fn, nil, 0) {
+		return []c11Root{{fn, nil, false}}
+	}
+	return out
+}
+
+// ---------------------------------------------------------------------------
+// Roles of the crypto helpers
+
+// c11Roles: the encrypt helper (decrypt helper) is found by walking up from the
+// age.Encrypt (age.Decrypt) call - the function containing it, its only caller,
+// that one's only caller, ... - and taking the outermost function of the
+// unbroken run of functions that have both the ciphertext buffer and the
+// plaintext buffer as parameters (a function split into wrapper + worker counts
+// as one helper: the wrapper). The age call is seen from the helper through a
+// chain.
+type c11Roles struct {
+	encFn, decFn                                         *ssa.Function
+	encCall, decCall                                     c11ECall
+	encCipherIdx, encPlainIdx, decCipherIdx, decPlainIdx int
+}
+
+func (ro c11Roles) stop() map[*ssa.Function]bool {
+	return map[*ssa.Function]bool{ro.encFn: true, ro.decFn: true}
+}
+
+func (g *c11Flow) roles() (c11Roles, bool) {
+	if g.rolesDone {
+		return g.rolesV, g.rolesOK
+	}
+	g.rolesDone = true
+	ro := c11Roles{encCipherIdx: -1, encPlainIdx: -1, decCipherIdx: -1, decPlainIdx: -1}
+	g.rolesV = ro
+	if len(g.encCalls) != 1 || len(g.decCalls) != 1 {
+		return ro, false
+	}
+	// candidates: the function containing the call, then its only caller, ...
+	type cand struct {
+		fn    *ssa.Function
+		chain c11Chain
+	}
+	cands := func(c CallSite) []cand {
+		out := []cand{{c.Fn, nil}}
+		cur, chain := c.Fn, c11Chain(nil)
+		for i := 0; i < c11MaxDepth; i++ {
+			sites, closed := g.closedCallers(cur)
+			if !closed || len(sites) != 1 || sites[0].Value() == nil || sites[0].Fn == cur {
+				break
+			}
+			chain = append(c11Chain{{sites[0], cur, false}}, chain...)
+			cur = sites[0].Fn
+			out = append(out, cand{cur, chain})
+		}
+		return out
+	}
+	encCall, decCall := g.encCalls[0], g.decCalls[0]
+	for _, cd := range cands(encCall) {
+		if cd.fn.Parent() != nil {
+			continue
+		}
+		ci := g.paramIndexOfNode(cd.fn, g.cnode(encCall.Args()[0], cd.chain))
+		pi := -1
+		for i, prm := range cd.fn.Params {
+			if i != ci && c11Objecty(prm.Type()) && NamedOf(prm.Type()) != g.storeType {
+				pi = i
+			}
+		}
+		if ci >= 0 && pi >= 0 {
+			ro.encFn, ro.encCall, ro.encCipherIdx, ro.encPlainIdx = cd.fn, c11ECall{encCall, cd.chain}, ci, pi
+		} else if ro.encFn != nil {
+			break
+		}
+	}
+	out := ResultValue(decCall.Value(), 0)
+	for _, cd := range cands(decCall) {
+		if cd.fn.Parent() != nil || out == nil {
+			continue
+		}
+		ci := g.paramIndexOfNode(cd.fn, g.cnode(decCall.Args()[0], cd.chain))
+		pi := -1
+		for i, prm := range cd.fn.Params {
+			if i != ci && c11Objecty(prm.Type()) && NamedOf(prm.Type()) != g.storeType && g.flows(out, prm, c11AllKinds) {
+				pi = i
+			}
+		}
+		if ci >= 0 && pi >= 0 {
+			ro.decFn, ro.decCall, ro.decCipherIdx, ro.decPlainIdx = cd.fn, c11ECall{decCall, cd.chain}, ci, pi
+		} else if ro.decFn != nil {
+			break
+		}
+	}
+	g.rolesV = ro
+	g.rolesOK = ro.encFn != nil && ro.decFn != nil
+	return ro, g.rolesOK
+}
+
+// isSink: c hands a wrapped store to a callee outside the package; returns the store.
+func (g *c11Flow) isSink(c CallSite) bool {
+	if g.extSet == nil {
+		g.extSet = map[ssa.CallInstruction]bool{}
+		for _, e := range g.extCalls {
+			g.extSet[e.Instr] = true
+		}
+	}
+	if !g.extSet[c.Instr] {
+		return false
+	}
+	for _, a := range c.Args() {
+		if g.wrappedStore(g.node(a)) != "" {
+			return true
+		}
+	}
+	return false
 }
 
 // ---------------------------------------------------------------------------
@@ -1315,280 +2457,437 @@ func c11RuleFetch(p *Program, r *Reporter, g *c11Flow) {
 		r.Floor(rule, 10)
 		return
 	}
-	encCall, decCall := g.encCalls[0], g.decCalls[0]
-	encFn, decFn := encCall.Fn, decCall.Fn
-	fk := FuncKey(fetchFn)
-
-	// --- roles inside decFn / encFn
-	decCipherIdx := g.paramIndexOfNode(decFn, g.node(decCall.Args()[0]))
-	decPlainIdx := -1
-	for i, prm := range decFn.Params {
-		if i == decCipherIdx || !c11Objecty(prm.Type()) {
-			continue
-		}
-		if out := ResultValue(decCall.Value(), 0); out != nil && g.flows(out, prm, c11AllKinds) && NamedOf(prm.Type()) != g.storeType {
-			decPlainIdx = i
-		}
-	}
-	encCipherIdx := g.paramIndexOfNode(encFn, g.node(encCall.Args()[0]))
-	if decCipherIdx < 0 || decPlainIdx < 0 || encCipherIdx < 0 || decFn.Parent() != nil || encFn.Parent() != nil {
-		r.Undecided(rule, c11Rel+"#crypto-helper-roles", p.Pos(decCall.Pos()), "cannot identify which parameters of the functions calling age.Encrypt/age.Decrypt are the ciphertext and plaintext buffers")
+	ro, ok := g.roles()
+	if !ok {
+		r.Undecided(rule, c11Rel+"#crypto-helper-roles", p.Pos(g.decCalls[0].Pos()), "cannot identify which parameters of the functions calling age.Encrypt/age.Decrypt (or of their only callers) are the ciphertext and plaintext buffers")
 		r.Floor(rule, 10)
 		return
 	}
+	encFn, decFn := ro.encFn, ro.decFn
+	fk := FuncKey(fetchFn)
 
-	// --- Fetch
-	var F *c11Sink
-	for _, s := range g.sinksIn(fetchFn, false) {
-		s := s
-		if v := s.c.Value(); v != nil {
-			if out := ResultValue(v, 0); out != nil && c11Implements(out.Type(), g.readerIface) {
+	// --- Fetch (effective body: helpers it calls are followed, the crypto helpers are not entered)
+	body := g.effCalls(fetchFn, ro.stop(), false)
+	var F, dec *c11ECall
+	for i := range body {
+		e := &body[i]
+		if !e.chain.sync() || e.Value() == nil {
+			continue
+		}
+		if g.isSink(e.CallSite) {
+			if out := ResultValue(e.Value(), 0); out != nil && c11Implements(out.Type(), g.readerIface) {
 				if F != nil {
-					r.Undecided(rule, fk+"#wrapped-fetch", p.Pos(s.c.Pos()), "more than one read from a wrapped store in Fetch")
+					r.Undecided(rule, fk+"#wrapped-fetch", p.Pos(e.Pos()), "more than one read from a wrapped store in Fetch")
 				}
-				F = &s
+				F = e
 			}
 		}
-	}
-	var decInFetch *ssa.Call
-	for _, c := range CallsIn(fetchFn, false) {
-		if c.Callee() == decFn && c.Value() != nil {
-			decInFetch = c.Value()
+		if e.Callee() == decFn {
+			dec = e
 		}
 	}
 	isHashMatches := func(c CallSite) bool { return c.IsStatic("perkeep.org/pkg/blob", "Ref", "HashMatches") }
-	nrs := MaybeNilErrorReturns(fetchFn)
-	if F == nil || decInFetch == nil {
-		r.Undecided(rule, fk+"#shape", p.Pos(fetchFn.Pos()), "Fetch does not itself read from a wrapped store and call the decrypt helper (helper indirection is not followed): cannot decide the authentication order")
+	exits := g.successExits(fetchFn, nil)
+	if F == nil || dec == nil {
+		r.Undecided(rule, fk+"#shape", p.Pos(fetchFn.Pos()), "neither Fetch nor the helpers it calls read from a wrapped store and call the decrypt helper: cannot decide the authentication order")
 	} else {
-		fReader := ResultValue(F.c.Value(), 0)
-		fRef := g.refArg(p, F.c)
-		resolved := map[*ssa.Return][]ssa.Value{}
-		for _, ri := range Returns(fetchFn) {
-			resolved[ri.Ret] = ri.Results
+		fReader := ResultValue(F.Value(), 0)
+		fRef := g.refArg(p, F.CallSite)
+		cipherArg := dec.Value().Call.Args[ro.decCipherIdx]
+		plainArg := dec.Value().Call.Args[ro.decPlainIdx]
+		// hashCheck: the exit is guarded by HashMatches()==true on the fetched ref, the hash
+		// having been fed (before the comparison) from the reader the store returned
+		type hashRes struct {
+			ok   bool
+			why  string
+			by   string
+			fed  bool
+			rank int
 		}
-		for _, nr := range nrs {
-			at := c11LastInstr(nr.From)
-			site := p.Pos(nr.Ret.Pos())
-			// (a) ciphertext digest
-			known, val, H := BoolCallFact(nr.From, isHashMatches)
-			switch {
-			case !known || !val:
-				r.Violation(rule, fk+"#success-return#hash-checked", site, "a success return of Fetch is not dominated by blob.Ref.HashMatches()==true: ciphertext swapped for another stored blob (or corrupted in a way age does not see, e.g. a different valid blob) would be returned")
-			case fRef == nil || !sameOrigin(H.Args()[0], fRef):
-				r.Violation(rule, fk+"#success-return#hash-checked", site, "the HashMatches that guards the success return is not called on the ref that was fetched from the wrapped store")
-			default:
-				// the hash was fed from the reader the store returned, before the comparison
+		hashCheck := func(e c11Exit) hashRes {
+			best := hashRes{why: "a success return of Fetch is not dominated by blob.Ref.HashMatches()==true: ciphertext swapped for another stored blob (or corrupted in a way age does not see, e.g. a different valid blob) would be returned"}
+			for i := range body {
+				H := body[i]
+				if !isHashMatches(H.CallSite) || H.Value() == nil {
+					continue
+				}
+				if ok, _ := g.holds(c11CallEvent(H, c11True), e.at, 0); !ok {
+					continue
+				}
+				if fRef == nil || !g.same(H.Args()[0], H.chain, fRef, F.chain) {
+					if best.rank < 1 {
+						best = hashRes{rank: 1, why: "the HashMatches that guards the success return is not called on the ref that was fetched from the wrapped store"}
+					}
+					continue
+				}
 				h := H.Args()[1]
-				cipherArg := decInFetch.Call.Args[decCipherIdx]
-				var copyCall *CallSite
+				var copyCall *c11ECall
 				fed := false
-				for _, c := range CallsIn(fetchFn, false) {
-					c := c
-					if c.Callee() != nil && g.inPkg[c.Callee()] || c.Instr == H.Instr || c.Instr == F.c.Instr || !Precedes(c.Instr, H.Instr) {
+				for j := range body {
+					c := body[j]
+					if g.followable(c.Callee()) || c.Instr == H.Instr || c.Instr == F.Instr {
+						continue
+					}
+					if ok, _ := g.holds(c11CallEvent(c, c11Ran), H.at(), 0); !ok {
 						continue
 					}
 					readsStore, feedsHash, fillsBuf := false, false, false
 					for _, a := range c.Args() {
-						if g.flows(fReader, a, c11FwdKinds) {
+						if g.cflows(fReader, F.chain, a, c.chain, c11FwdKinds) {
 							readsStore = true
 						}
-						if g.flows(h, a, c11FwdKinds) {
+						if g.cflows(h, H.chain, a, c.chain, c11FwdKinds) {
 							feedsHash = true
 						}
-						if g.flows(cipherArg, a, c11FwdKinds) {
+						if g.cflows(cipherArg, dec.chain, a, c.chain, c11FwdKinds) {
 							fillsBuf = true
 						}
 					}
 					if readsStore && feedsHash && (copyCall == nil || fillsBuf) {
-						copyCall = &c
+						copyCall = &body[j]
 						fed = fillsBuf
 					}
 				}
 				if copyCall == nil {
-					r.Violation(rule, fk+"#success-return#hash-checked", site, "HashMatches guards the success return, but no call before it combines the reader returned by the wrapped store with that hash: the digest compared is not that of the bytes read")
-					break
+					if best.rank < 2 {
+						best = hashRes{rank: 2, why: "HashMatches guards the success return, but no call before it combines the reader returned by the wrapped store with that hash: the digest compared is not that of the bytes read"}
+					}
+					continue
 				}
-				r.OK(rule, fk+"#success-return#hash-checked", site, "dominated by HashMatches()==true on the fetched ref, with the hash fed from the wrapped store's reader by "+copyCall.CalleeKey()+" before the comparison")
+				return hashRes{ok: true, by: copyCall.CalleeKey() + copyCall.chain.via(), fed: fed}
+			}
+			return best
+		}
+		// index look-ups of the requested ref
+		var lookups []c11ECall
+		for _, e := range body {
+			if rt := e.RecvType(); rt == nil || !c11Implements(rt, g.kvIface) || e.MethodName() != "Get" || e.Value() == nil || len(e.Args()) < 2 {
+				continue
+			}
+			if g.dependsOn(e.Args()[1], e.chain, func(v ssa.Value) bool {
+				prm, ok := v.(*ssa.Parameter)
+				return ok && prm.Parent() == fetchFn && prm != fetchFn.Params[0] && !c11IsContext(prm.Type())
+			}) {
+				lookups = append(lookups, e)
+			}
+		}
+		isSinkValue := func(v ssa.Value) bool {
+			call, ok := v.(*ssa.Call)
+			return ok && g.isSink(CallSite{call.Parent(), call})
+		}
+		for _, x := range exits {
+			site := p.Pos(x.ret.Pos())
+			// (a) ciphertext digest
+			var hr hashRes
+			okHash, _ := g.exitOK(x, 0, func(e c11Exit) (bool, string) {
+				res := hashCheck(e)
+				if res.ok || hr.why == "" {
+					hr = res
+				}
+				return res.ok, res.why
+			})
+			if !okHash {
+				r.Violation(rule, fk+"#success-return#hash-checked", site, hr.why)
+			} else {
+				r.OK(rule, fk+"#success-return#hash-checked", site, "dominated by HashMatches()==true on the fetched ref, with the hash fed from the wrapped store's reader by "+hr.by+" before the comparison")
 				// (b) decrypt of the same bytes
-				r.Check(fed, rule, fk+"#success-return#decrypts-read-bytes", site,
+				okFed, _ := g.exitOK(x, 0, func(e c11Exit) (bool, string) {
+					res := hashCheck(e)
+					return res.ok && res.fed, ""
+				})
+				r.Check(okFed, rule, fk+"#success-return#decrypts-read-bytes", site,
 					"the buffer handed to the decrypt helper is filled by the same copy that feeds the hash",
 					"the ciphertext buffer handed to the decrypt helper is not filled by the copy that feeds the checked hash: the bytes decrypted are not the bytes whose digest was compared")
 			}
 			// (c) decrypt success
-			ok, why := SuccessDominates(decInFetch, at)
+			ok, why := g.exitOK(x, 0, func(e c11Exit) (bool, string) { return g.holds(c11CallEvent(*dec, c11Done), e.at, 0) })
 			r.Check(ok, rule, fk+"#success-return#decrypt-ok", site,
-				"dominated by the success edge of "+shortFn(decFn),
+				"dominated by the success edge of "+shortFn(decFn)+dec.chain.via(),
 				"a success return of Fetch is not on the success edge of "+shortFn(decFn)+" ("+why+"): unauthenticated or undecryptable ciphertext would be returned as a blob")
 			// (d) reader and size provenance
-			res := resolved[nr.Ret]
-			if len(res) == 3 {
-				plainArg := decInFetch.Call.Args[decPlainIdx]
-				r.Check(g.flows(plainArg, res[0], c11FwdKinds), rule, fk+"#success-return#returns-decrypt-output", site,
+			if len(x.results) == 3 {
+				ok, _ := g.exitOK(x, 0, func(e c11Exit) (bool, string) {
+					return len(e.results) == 3 && g.cflows(plainArg, dec.chain, e.results[0], e.at.chain, c11FwdKinds), ""
+				})
+				r.Check(ok, rule, fk+"#success-return#returns-decrypt-output", site,
 					"the returned reader is built from the buffer the decrypt helper wrote the plaintext to",
 					"the reader returned on success is not built from the plaintext buffer of the decrypt helper")
-				okSize := false
-				var metaCall *ssa.Call
-				if ex, isEx := originValue(fRef).(*ssa.Extract); isEx {
-					metaCall, _ = ex.Tuple.(*ssa.Call)
-				}
-				if metaCall != nil {
-					takesParam := false
-					for _, a := range metaCall.Call.Args {
-						if DependsOn(a, func(v ssa.Value) bool {
-							prm, ok := v.(*ssa.Parameter)
-							return ok && prm.Parent() == fetchFn && prm != fetchFn.Params[0] && !c11IsContext(prm.Type())
-						}) {
-							takesParam = true
+				ok, _ = g.exitOK(x, 0, func(e c11Exit) (bool, string) {
+					if len(e.results) != 3 || fRef == nil {
+						return false, ""
+					}
+					for _, L := range lookups {
+						isL := func(v ssa.Value) bool { return v == ssa.Value(L.Value()) }
+						if g.dependsOn(fRef, F.chain, isL) && g.dependsOn(e.results[1], e.at.chain, isL) && !g.dependsOn(e.results[1], e.at.chain, isSinkValue) {
+							return true, ""
 						}
 					}
-					if sz, isEx := originValue(res[1]).(*ssa.Extract); isEx && sz.Tuple == ssa.Value(metaCall) && takesParam {
-						okSize = true
-					}
-				}
-				r.Check(okSize, rule, fk+"#success-return#indexed-size-and-ref", site,
+					return false, ""
+				})
+				r.Check(ok, rule, fk+"#success-return#indexed-size-and-ref", site,
 					"the ref fetched from the wrapped store and the returned size both come from one index look-up of the requested ref",
 					"the returned size and the fetched encrypted ref do not come from the same index look-up of the requested plaintext ref")
 			}
 		}
-		if len(nrs) == 0 {
+		if len(exits) == 0 {
 			r.Violation(rule, fk+"#success-return", p.Pos(fetchFn.Pos()), "Fetch has no success return")
 		}
 	}
 
 	// --- decrypt helper
 	dk := FuncKey(decFn)
-	decV := decCall.Value()
-	decOut := ResultValue(decV, 0)
-	var decCopy *ssa.Call
-	for _, c := range CallsIn(decFn, false) {
-		if c.Value() == nil || c.Instr == decCall.Instr {
+	decBody := g.effCalls(decFn, nil, false)
+	decCall := ro.decCall
+	decOut := ResultValue(decCall.Value(), 0)
+	var decCopy *c11ECall
+	for i := range decBody {
+		c := decBody[i]
+		if c.Value() == nil || c.Instr == decCall.Instr || g.followable(c.Callee()) {
 			continue
 		}
 		src, dst := false, false
 		for _, a := range c.Args() {
-			if decOut != nil && g.node(a) == g.node(decOut) {
+			if decOut != nil && g.sameNode(a, c.chain, decOut, decCall.chain) {
 				src = true
 			}
-			if g.node(a) == g.node(decFn.Params[decPlainIdx]) {
+			if g.sameNode(a, c.chain, decFn.Params[ro.decPlainIdx], nil) {
 				dst = true
 			}
 		}
 		if src && dst {
-			decCopy = c.Value()
+			decCopy = &decBody[i]
 		}
 	}
-	// version byte written by the encrypt helper
-	var encVersion *ssa.Const
-	for _, c := range CallsIn(encFn, false) {
-		args := c.Args()
-		if len(args) == 2 && g.node(args[0]) == g.node(encFn.Params[encCipherIdx]) && Precedes(c.Instr, encCall.Instr) {
-			if k, ok := args[1].(*ssa.Const); ok {
-				encVersion = k
-			}
-		}
-	}
-	for _, nr := range MaybeNilErrorReturns(decFn) {
-		at := c11LastInstr(nr.From)
-		site := p.Pos(nr.Ret.Pos())
-		ok, why := SuccessDominates(decV, at)
+	// version byte written by the encrypt helper (or, when the helper was split, by every caller before it)
+	encBody := g.effCalls(encFn, nil, false)
+	encCall := ro.encCall
+	encVersion, encVerWhy := g.versionWritten(ro, encBody)
+	for _, x := range g.successExits(decFn, nil) {
+		site := p.Pos(x.ret.Pos())
+		ok, why := g.exitOK(x, 0, func(e c11Exit) (bool, string) { return g.holds(c11CallEvent(decCall, c11Done), e.at, 0) })
 		r.Check(ok, rule, dk+"#success-return#age-decrypt-ok", site, "dominated by the success edge of age.Decrypt", "a success return of the decrypt helper is not on the success edge of age.Decrypt ("+why+")")
 		if decCopy == nil {
 			r.Violation(rule, dk+"#success-return#copy-ok", site, "no call copies the reader returned by age.Decrypt into the plaintext parameter")
 		} else {
-			ok, why = SuccessDominates(decCopy, at)
+			ok, why = g.exitOK(x, 0, func(e c11Exit) (bool, string) { return g.holds(c11CallEvent(*decCopy, c11Done), e.at, 0) })
 			r.Check(ok, rule, dk+"#success-return#copy-ok", site,
 				"dominated by the success edge of the copy of age's output (age authenticates each chunk while it is read)",
 				"a success return of the decrypt helper is not on the success edge of the copy of age.Decrypt's output ("+why+"): age reports tampering and truncation as a read error, which would be ignored")
 		}
 		// version byte
-		okVer, verDetail := false, "no comparison of a byte read from the ciphertext against a constant guards the success return"
-		for _, f := range FactsAt(nr.From) {
-			bo, isBin := f.Cond.(*ssa.BinOp)
-			if !isBin || (bo.Op != token.EQL && bo.Op != token.NEQ) {
-				continue
-			}
-			k, isConst := bo.Y.(*ssa.Const)
-			other := bo.X
-			if !isConst {
-				k, isConst = bo.X.(*ssa.Const)
-				other = bo.Y
-			}
-			if !isConst || k.Value == nil {
-				continue
-			}
-			if b, ok := other.Type().Underlying().(*types.Basic); !ok || b.Kind() != types.Uint8 {
-				continue
-			}
-			if !g.flows(decFn.Params[decCipherIdx], other, c11AllKinds) {
-				continue
-			}
-			equal := (bo.Op == token.EQL) == f.Val
-			switch {
-			case !equal:
-				verDetail = "the success return is on the edge where the version byte differs from the constant"
-			case encVersion == nil:
-				verDetail = "the encrypt helper writes no constant version byte before the age stream"
-			case encVersion.Int64() != k.Int64():
-				verDetail = fmt.Sprintf("the decrypt helper accepts version byte %d but the encrypt helper writes %d", k.Int64(), encVersion.Int64())
-			default:
-				okVer = true
-				verDetail = fmt.Sprintf("guarded by version byte == %d, the constant the encrypt helper writes first", k.Int64())
-			}
-		}
+		okVer, verDetail := g.versionGuard(ro, x, encVersion, encVerWhy)
 		r.Check(okVer, rule, dk+"#success-return#version-byte", site, verDetail, verDetail+": every stored blob would be refused (or foreign formats accepted)")
 	}
 
 	// --- encrypt helper
 	ek := FuncKey(encFn)
-	encV := encCall.Value()
-	encW := ResultValue(encV, 0)
-	var encCopy, encClose *ssa.Call
-	for _, c := range CallsIn(encFn, false) {
-		if c.Value() == nil || c.Instr == encCall.Instr || encW == nil {
+	encW := ResultValue(encCall.Value(), 0)
+	var encCopy, encClose *c11ECall
+	for i := range encBody {
+		c := encBody[i]
+		if c.Value() == nil || c.Instr == encCall.Instr || encW == nil || g.followable(c.Callee()) {
 			continue
 		}
 		args := c.Args()
-		if len(args) == 1 && g.node(args[0]) == g.node(encW) && c.MethodName() == "Close" {
-			encClose = c.Value()
+		if len(args) == 1 && g.sameNode(args[0], c.chain, encW, encCall.chain) && c.MethodName() == "Close" {
+			encClose = &encBody[i]
 			continue
 		}
 		dst, src := false, false
 		for _, a := range args {
-			if g.node(a) == g.node(encW) {
+			if g.sameNode(a, c.chain, encW, encCall.chain) {
 				dst = true
 			}
 			for i, prm := range encFn.Params {
-				if i != encCipherIdx && c11Objecty(prm.Type()) && NamedOf(prm.Type()) != g.storeType && g.node(a) == g.node(prm) {
+				if i != ro.encCipherIdx && c11Objecty(prm.Type()) && NamedOf(prm.Type()) != g.storeType && g.sameNode(a, c.chain, prm, nil) {
 					src = true
 				}
 			}
 		}
 		if dst && src {
-			encCopy = c.Value()
+			encCopy = &encBody[i]
 		}
 	}
-	for _, nr := range MaybeNilErrorReturns(encFn) {
-		at := c11LastInstr(nr.From)
-		site := p.Pos(nr.Ret.Pos())
+	for _, x := range g.successExits(encFn, nil) {
+		site := p.Pos(x.ret.Pos())
 		if encCopy == nil {
 			r.Violation(rule, ek+"#success-return#copy-ok", site, "no call copies the plaintext parameter into the writer returned by age.Encrypt")
 		} else {
-			ok, why := SuccessDominates(encCopy, at)
+			ok, why := g.exitOK(x, 0, func(e c11Exit) (bool, string) { return g.holds(c11CallEvent(*encCopy, c11Done), e.at, 0) })
 			r.Check(ok, rule, ek+"#success-return#copy-ok", site, "dominated by the success edge of the copy into the age writer", "a success return of the encrypt helper is not on the success edge of the copy into the age writer ("+why+"): a partially encrypted blob would be stored and acknowledged")
 		}
 		if encClose == nil {
 			r.Violation(rule, ek+"#success-return#close-ok", site, "the writer returned by age.Encrypt is never closed: the final chunk is not flushed and the blob cannot be decrypted")
 		} else {
-			ok, why := SuccessDominates(encClose, at)
+			ok, why := g.exitOK(x, 0, func(e c11Exit) (bool, string) { return g.holds(c11CallEvent(*encClose, c11Done), e.at, 0) })
 			r.Check(ok, rule, ek+"#success-return#close-ok", site, "dominated by the success edge of Close on the age writer (flushes the final authenticated chunk)", "a success return of the encrypt helper is not on the success edge of Close on the age writer ("+why+"): the final chunk may be missing, the stored blob then fails authentication on every fetch")
 		}
 	}
 	r.Floor(rule, 10)
 }
 
+// versionWritten: the constant byte written into the ciphertext buffer before
+// the age stream: by a call in the encrypt helper's effective body that precedes
+// age.Encrypt, or - when the helper was split off below that write - by every
+// caller of the helper before it calls it.
+func (g *c11Flow) versionWritten(ro c11Roles, encBody []c11ECall) (*ssa.Const, string) {
+	cipher := ro.encFn.Params[ro.encCipherIdx]
+	var found *ssa.Const
+	for _, c := range encBody {
+		args := c.Args()
+		if len(args) != 2 || g.followable(c.Callee()) || !g.sameNode(args[0], c.chain, cipher, nil) {
+			continue
+		}
+		k, isConst := args[1].(*ssa.Const)
+		if !isConst {
+			continue
+		}
+		if ok, _ := g.holds(c11CallEvent(c, c11Ran), ro.encCall.at(), 0); ok {
+			found = k
+		}
+	}
+	if found != nil {
+		return found, ""
+	}
+	sites, closed := g.closedCallers(ro.encFn)
+	if !closed || len(sites) == 0 {
+		return nil, "the encrypt helper writes no constant version byte before the age stream"
+	}
+	for _, cs := range sites {
+		var here *ssa.Const
+		for _, c := range g.effCalls(cs.Fn, ro.stop(), false) {
+			args := c.Args()
+			if len(args) != 2 || g.followable(c.Callee()) || !g.same(args[0], c.chain, cs.Args()[ro.encCipherIdx], nil) {
+				continue
+			}
+			if k, isConst := args[1].(*ssa.Const); isConst {
+				if ok, _ := g.holds(c11CallEvent(c, c11Ran), c11At{in: cs.Instr}, 0); ok {
+					here = k
+				}
+			}
+		}
+		if here == nil || found != nil && here.Int64() != found.Int64() {
+			return nil, "not every caller of the encrypt helper writes the same constant version byte before the age stream (" + shortFn(cs.Fn) + ")"
+		}
+		found = here
+	}
+	return found, ""
+}
+
+// versionEvents lists the comparisons, in the effective body of root, of a
+// byte read from the decrypt helper's ciphertext with a constant: the event is
+// "the byte was equal to the constant".
+func (g *c11Flow) versionEvents(ro c11Roles, funcs []c11Root) (evs []c11Event, consts []*ssa.Const) {
+	cipher := ro.decFn.Params[ro.decCipherIdx]
+	for _, f := range funcs {
+		for _, b := range f.fn.Blocks {
+			for _, in := range b.Instrs {
+				bo, isBin := in.(*ssa.BinOp)
+				if !isBin || (bo.Op != token.EQL && bo.Op != token.NEQ) {
+					continue
+				}
+				k, isConst := bo.Y.(*ssa.Const)
+				other := bo.X
+				if !isConst {
+					k, isConst = bo.X.(*ssa.Const)
+					other = bo.Y
+				}
+				if !isConst || k.Value == nil {
+					continue
+				}
+				if bt, ok := other.Type().Underlying().(*types.Basic); !ok || bt.Kind() != types.Uint8 {
+					continue
+				}
+				if !g.flows(cipher, other, c11AllKinds) {
+					continue
+				}
+				want := c11True
+				if bo.Op == token.NEQ {
+					want = c11False
+				}
+				evs = append(evs, c11Event{at: c11At{chain: f.chain, in: bo}, want: want, val: bo})
+				consts = append(consts, k)
+			}
+		}
+	}
+	return evs, consts
+}
+
+// versionGuard: success exit x of the decrypt helper is guarded by "version
+// byte == the constant the encrypt side writes": inside the helper's effective
+// body, or - when the helper was split off below the check - at every call
+// site of the helper.
+func (g *c11Flow) versionGuard(ro c11Roles, x c11Exit, encVersion *ssa.Const, encVerWhy string) (bool, string) {
+	detail := "no comparison of a byte read from the ciphertext against a constant guards the success return"
+	judge := func(k *ssa.Const) (bool, string) {
+		switch {
+		case encVersion == nil:
+			return false, encVerWhy
+		case encVersion.Int64() != k.Int64():
+			return false, fmt.Sprintf("the decrypt helper accepts version byte %d but the encrypt helper writes %d", k.Int64(), encVersion.Int64())
+		}
+		return true, fmt.Sprintf("guarded by version byte == %d, the constant the encrypt helper writes first", k.Int64())
+	}
+	evs, consts := g.versionEvents(ro, g.effFuncs(ro.decFn, nil, false))
+	for i, ev := range evs {
+		ev := ev
+		ok, _ := g.exitOK(x, 0, func(e c11Exit) (bool, string) { return g.holds(ev, e.at, 0) })
+		if ok {
+			return judge(consts[i])
+		}
+		// the opposite branch?
+		opp := ev
+		if ev.want == c11True {
+			opp.want = c11False
+		} else {
+			opp.want = c11True
+		}
+		if ok, _ := g.holds(opp, x.at, 0); ok {
+			detail = "the success return is on the edge where the version byte differs from the constant"
+		}
+	}
+	if len(evs) > 0 {
+		return false, detail
+	}
+	// lifted: every caller checks before calling the helper
+	sites, closed := g.closedCallers(ro.decFn)
+	if !closed || len(sites) == 0 {
+		return false, detail
+	}
+	var res string
+	for _, cs := range sites {
+		evs, consts := g.versionEvents(ro, g.effFuncs(cs.Fn, ro.stop(), false))
+		okHere := false
+		for i, ev := range evs {
+			if ok, _ := g.holds(ev, c11At{in: cs.Instr}, 0); ok {
+				ok2, d := judge(consts[i])
+				if !ok2 {
+					return false, d
+				}
+				okHere, res = true, d+" (checked by the caller "+shortFn(cs.Fn)+" before the decrypt helper is called)"
+			}
+		}
+		if !okHere {
+			return false, detail + " (nor the call of the decrypt helper in " + shortFn(cs.Fn) + ")"
+		}
+	}
+	return true, res
+}
+
 // ---------------------------------------------------------------------------
 // X-compact
+
+func c11StoreOverlap(a, b string) bool {
+	if a == "" || b == "" {
+		return false
+	}
+	for _, x := range strings.Split(a, "|") {
+		if strings.Contains("|"+b+"|", "|"+x+"|") {
+			return true
+		}
+	}
+	return false
+}
 
 func c11RuleCompact(p *Program, r *Reporter, g *c11Flow) {
 	const rule = "X-compact"
@@ -1597,12 +2896,21 @@ func c11RuleCompact(p *Program, r *Reporter, g *c11Flow) {
 		r.Floor(rule, 12)
 		return
 	}
-	encFn, decFn := g.encCalls[0].Fn, g.decCalls[0].Fn
-	encCipherIdx := g.paramIndexOfNode(encFn, g.node(g.encCalls[0].Args()[0]))
+	ro, ok := g.roles()
+	if !ok {
+		r.Undecided(rule, c11Rel+"#crypto-helper-roles", "?", "cannot identify the encrypt/decrypt helpers and their buffer parameters by role")
+		r.Floor(rule, 12)
+		return
+	}
+	encFn, decFn := ro.encFn, ro.decFn
+	stop := ro.stop()
 	removerIface := p.Iface("pkg/blobserver", "BlobRemover")
 	removeName := removerIface.Method(0).Name()
 
-	// --- (1) compaction: upload before delete
+	// --- (1) compaction: upload before delete. The compaction function is found by role: the
+	// function whose effective body holds the removal and an upload to the same store (the
+	// function containing the removal, or - when the removal was split off into a helper -
+	// its callers)
 	nRemove := 0
 	for _, fn := range g.fns {
 		for _, rm := range g.sinksIn(fn, false) {
@@ -1610,94 +2918,17 @@ func c11RuleCompact(p *Program, r *Reporter, g *c11Flow) {
 				continue
 			}
 			nRemove++
-			fk := FuncKey(fn)
-			site := p.Pos(rm.c.Pos())
-			// the upload: a content sink on the same store in this function, or a direct call of a
-			// package function that contains one (bound 1)
-			var upload *ssa.Call
-			for _, u := range g.sinksIn(fn, false) {
-				if u.store == rm.store && g.contentArg(u.c) != nil && u.c.Value() != nil {
-					if ok, _ := SuccessDominates(u.c.Value(), rm.c.Instr); ok {
-						upload = u.c.Value()
+			hasUpload := func(root *ssa.Function) bool {
+				for _, e := range g.effCalls(root, stop, false) {
+					if e.Value() != nil && g.isSink(e.CallSite) && g.contentArg(e.CallSite) != nil && c11StoreOverlap(g.storeOf(e), rm.store) {
+						return true
 					}
 				}
+				return false
 			}
-			if upload == nil {
-				for _, c := range CallsIn(fn, false) {
-					h := c.Callee()
-					if h == nil || !g.inPkg[h] || h.Parent() != nil || c.Value() == nil {
-						continue
-					}
-					for _, u := range g.sinksIn(h, false) {
-						if strings.Contains("|"+u.store+"|", "|"+rm.store+"|") && g.contentArg(u.c) != nil {
-							if _, hasErr, _ := ErrValue(c.Value()); hasErr {
-								if ok, _ := SuccessDominates(c.Value(), rm.c.Instr); ok {
-									upload = c.Value()
-								}
-							}
-						}
-					}
-				}
+			for _, rt := range g.rootsOf(fn, hasUpload) {
+				c11CompactAt(p, r, g, ro, rt, rm, removeName)
 			}
-			if upload == nil {
-				r.Violation(rule, fk+"#"+rm.store+"."+removeName+"#after-upload", site,
-					"blobs are removed from the wrapped store "+rm.store+" without being dominated by the success edge of an upload to that store (in the same function or a helper it calls): if the packed meta blob was not stored, the only copies of these rows are deleted and the plaintext->ciphertext mapping is lost")
-				continue
-			}
-			upCS := CallSite{fn, upload}
-			r.OK(rule, fk+"#"+rm.store+"."+removeName+"#after-upload", site, "dominated by the success edge of "+c11CalleeName(upCS)+" to the same store")
-			// the upload is of successfully encrypted content
-			var enc *ssa.Call
-			for _, c := range CallsIn(fn, false) {
-				if c.Callee() != encFn || c.Value() == nil || encCipherIdx < 0 {
-					continue
-				}
-				for _, a := range upCS.Args() {
-					if g.wrappedStore(g.node(a)) == "" && g.flows(c.Value().Call.Args[encCipherIdx], a, c11FwdKinds) {
-						enc = c.Value()
-					}
-				}
-			}
-			if enc == nil {
-				r.Undecided(rule, fk+"#"+rm.store+"."+removeName+"#upload-encrypted-ok", site, "the uploaded replacement is not encrypted by a direct call of the encrypt helper in this function")
-			} else {
-				ok, why := SuccessDominates(enc, upload)
-				r.Check(ok, rule, fk+"#"+rm.store+"."+removeName+"#upload-encrypted-ok", site,
-					"the upload is dominated by the success edge of the encrypt helper for the uploaded buffer",
-					"the replacement blob is uploaded although the encrypt helper may have failed ("+why+"): a truncated packed meta blob replaces the small ones")
-			}
-			// a failed index look-up never reaches the removal
-			for _, c := range CallsIn(fn, false) {
-				if rt := c.RecvType(); rt == nil || !c11Implements(rt, g.kvIface) || c.MethodName() != "Get" || c.Value() == nil {
-					continue
-				}
-				ev, _, discarded := ErrValue(c.Value())
-				bad := ""
-				if discarded || ev == nil {
-					bad = "the error of the index look-up is discarded"
-				} else {
-					reach := ReachableFrom(c.Instr, func(in ssa.Instruction) bool {
-						// stop where the look-up is known to have succeeded
-						if in != in.Block().Instrs[0] {
-							return false
-						}
-						k, isNil := NilFact(in.Block(), ev)
-						return k && isNil
-					})
-					// the failure edge: blocks where ev is known non-nil
-					for in := range reach {
-						if k, isNil := NilFact(in.Block(), ev); k && !isNil {
-							if ReachableFrom(in, nil)[rm.c.Instr] {
-								bad = "the removal is reachable from the failure edge of the index look-up"
-							}
-						}
-					}
-				}
-				r.Check(bad == "", rule, fk+"#"+rm.store+"."+removeName+"#not-after-failed-lookup", p.Pos(c.Pos()),
-					"no path from the failure edge of the index look-up reaches the removal",
-					bad+": the packed meta blob would lack that row while the small meta blob holding it is deleted")
-			}
-			c11CompactCoverage(p, r, g, fn, rm, enc)
 		}
 	}
 	if nRemove == 0 {
@@ -1705,63 +2936,100 @@ func c11RuleCompact(p *Program, r *Reporter, g *c11Flow) {
 	}
 
 	// --- (2) restart path
-	// scan function: the top-level function that enumerates a wrapped store with a callback
-	var scanFn *ssa.Function
+	// the enumeration: the call that hands a wrapped store and a package function (the per-blob
+	// callback) to a callee outside the package
 	var enumSink *c11Sink
 	for _, fn := range g.fns {
-		if fn.Parent() != nil {
-			continue
-		}
-		for _, s := range g.sinksIn(fn, true) {
+		for _, s := range g.sinksIn(fn, false) {
 			s := s
-			if len(FuncArgClosures(s.c)) > 0 {
-				if scanFn != nil && scanFn != fn {
+			if len(g.funcArgs(s.c)) > 0 {
+				if enumSink != nil && TopFunc(enumSink.c.Fn) != TopFunc(fn) {
 					r.Undecided(rule, c11Rel+"#scan-function", p.Pos(s.c.Pos()), "more than one function enumerates a wrapped store with a callback")
 				}
-				scanFn, enumSink = fn, &s
+				enumSink = &s
 			}
 		}
 	}
-	if scanFn == nil {
+	if enumSink == nil {
 		r.Violation(rule, c11Rel+"#restart-scan", "?", "no function enumerates a wrapped store with a callback any more: the meta index cannot be rebuilt from the wrapped stores")
 		r.Floor(rule, 12)
 		return
+	}
+	// constructors: functions that return a storage they (or a helper) allocated and that can be
+	// entered from outside the package
+	storageResult := func(fn *ssa.Function) int {
+		if fn.Parent() != nil {
+			return -1
+		}
+		for _, ri := range Returns(fn) {
+			for i, res := range ri.Results {
+				o, _ := g.canon(res, nil, false)
+				if al, ok := o.(*ssa.Alloc); ok && NamedOf(al.Type().(*types.Pointer).Elem()) == g.storeType {
+					if _, isPtr := al.Type().(*types.Pointer).Elem().(*types.Pointer); !isPtr {
+						return i
+					}
+				}
+			}
+		}
+		return -1
+	}
+	// scan function: the function around the enumeration that reports its outcome to its caller -
+	// the function holding the enumeration or, while that one returns no error or is started
+	// with go/defer from its single call site (outside a constructor), its caller
+	scanFn := TopFunc(enumSink.c.Fn)
+	for i := 0; i < c11MaxDepth; i++ {
+		sites, closed := g.closedCallers(scanFn)
+		if !closed || len(sites) != 1 || (ErrResultIndex(scanFn) >= 0 && sites[0].Value() != nil) {
+			break
+		}
+		up := TopFunc(sites[0].Fn)
+		if up == scanFn || storageResult(up) >= 0 {
+			break
+		}
+		scanFn = up
 	}
 	sk := FuncKey(scanFn)
 	metaStore := enumSink.store
 	// (2a) constructor: a store is returned only after a successful scan
 	nCtor := 0
 	for _, fn := range g.fns {
-		if fn.Parent() != nil {
+		si := storageResult(fn)
+		if si < 0 {
 			continue
 		}
-		var alloc *ssa.Alloc
-		for _, b := range fn.Blocks {
-			for _, in := range b.Instrs {
-				if al, ok := in.(*ssa.Alloc); ok && NamedOf(al.Type().(*types.Pointer).Elem()) == g.storeType {
-					if _, isPtr := al.Type().(*types.Pointer).Elem().(*types.Pointer); !isPtr {
-						alloc = al
-					}
-				}
-			}
-		}
-		if alloc == nil {
-			continue
+		if sites, closed := g.closedCallers(fn); closed && len(sites) > 0 {
+			continue // a helper of a constructor
 		}
 		nCtor++
-		var scan *ssa.Call
-		for _, c := range CallsIn(fn, false) {
-			if c.Callee() == scanFn && c.Value() != nil && sameOrigin(c.Args()[0], alloc) {
-				scan = c.Value()
+		body := g.effCalls(fn, stop, false)
+		for _, x := range g.successExits(fn, nil) {
+			if si < len(x.results) && IsNilConst(x.results[si]) {
+				continue
 			}
-		}
-		for _, nr := range MaybeNilErrorReturns(fn) {
-			site := p.Pos(nr.Ret.Pos())
-			if scan == nil {
+			site := p.Pos(x.ret.Pos())
+			called := false
+			ok, why := g.exitOK(x, 0, func(e c11Exit) (bool, string) {
+				why := "the store is returned without " + shortFn(scanFn) + " having been called on it"
+				for _, c := range body {
+					if c.Callee() != scanFn || c.Value() == nil || len(c.Args()) == 0 {
+						continue
+					}
+					if si >= len(e.results) || !g.same(c.Args()[0], c.chain, e.results[si], e.at.chain) {
+						continue
+					}
+					called = true
+					ok, w := g.holds(c11CallEvent(c, c11Done), e.at, 0)
+					if ok {
+						return true, ""
+					}
+					why = w
+				}
+				return false, why
+			})
+			if !called {
 				r.Violation(rule, FuncKey(fn)+"#success-return#scan-ok", site, "the constructor returns a store without calling "+shortFn(scanFn)+" on it: after a restart with an empty meta index every stored blob is invisible")
 				continue
 			}
-			ok, why := SuccessDominates(scan, c11LastInstr(nr.From))
 			r.Check(ok, rule, FuncKey(fn)+"#success-return#scan-ok", site,
 				"dominated by the success edge of "+shortFn(scanFn)+" on the new store",
 				"the constructor can return a store although "+shortFn(scanFn)+" did not succeed ("+why+"): blobs whose meta was not read are invisible and would be stored twice")
@@ -1773,21 +3041,22 @@ func c11RuleCompact(p *Program, r *Reporter, g *c11Flow) {
 
 	// (2b) scan: every enumerated ref is fetched from the same store and handed to the process function
 	var lit *ssa.Function
-	if cl := FuncArgClosures(enumSink.c); len(cl) == 1 {
+	if cl := g.funcArgs(enumSink.c); len(cl) == 1 {
 		lit = cl[0]
 	}
-	var fetchSink *c11Sink
+	var fetchSink *c11ECall
 	if lit != nil {
-		for _, s := range g.sinksIn(lit, true) {
-			s := s
-			if s.store != metaStore || s.c.Value() == nil {
+		litBody := g.effCalls(lit, stop, true)
+		for i := range litBody {
+			s := litBody[i]
+			if s.Value() == nil || !g.isSink(s.CallSite) || g.storeOf(s) != metaStore {
 				continue
 			}
-			if out := ResultValue(s.c.Value(), 0); out != nil && c11Implements(out.Type(), g.readerIface) {
-				ref := g.refArg(p, s.c)
+			if out := ResultValue(s.Value(), 0); out != nil && c11Implements(out.Type(), g.readerIface) {
+				ref := g.refArg(p, s.CallSite)
 				for _, prm := range lit.Params {
 					if ref != nil && g.flows(prm, ref, c11FwdKinds) {
-						fetchSink = &s
+						fetchSink = &litBody[i]
 					}
 				}
 			}
@@ -1796,51 +3065,63 @@ func c11RuleCompact(p *Program, r *Reporter, g *c11Flow) {
 	r.Check(fetchSink != nil, rule, sk+"#enumerate-callback#fetches-each", p.Pos(enumSink.c.Pos()),
 		"the enumeration callback fetches the ref it is given from the same wrapped store ("+metaStore+")",
 		"the callback of the start-up enumeration of "+metaStore+" does not fetch the enumerated ref from that store: meta blobs are listed but never read")
-	// process function, by role: the in-package function the scan hands the fetched bytes to
-	// (fallback when the fetch is gone: the function that both decrypts and writes the index)
-	var procCall *ssa.Call
+	// process function, by role: the innermost package function, called from the scan function's
+	// effective body, whose own effective body both calls the decrypt helper and writes the meta
+	// index (and does not hold the enumeration itself)
+	isSet := map[ssa.CallInstruction]bool{}
+	for _, c := range g.indexSets {
+		isSet[c.Instr] = true
+	}
+	decrypts := func(fn *ssa.Function) bool {
+		dec, set := false, false
+		for _, e := range g.effCalls(fn, stop, true) {
+			if e.Callee() == decFn {
+				dec = true
+			}
+			if isSet[e.Instr] {
+				set = true
+			}
+			if e.Instr == enumSink.c.Instr {
+				return false
+			}
+		}
+		return dec && set
+	}
+	var procCall *c11ECall
 	var processFn *ssa.Function
-	for _, c := range CallsIn(scanFn, true) {
+	scanBody := g.effCalls(scanFn, stop, true)
+	for i := range scanBody {
+		c := scanBody[i]
 		callee := c.Callee()
-		if callee == nil || !g.inPkg[callee] || callee.Parent() != nil || callee == decFn || callee == encFn || c.Value() == nil || fetchSink == nil {
+		if !g.followable(callee) || callee.Parent() != nil || callee == decFn || callee == encFn || c.Value() == nil || !decrypts(callee) {
 			continue
 		}
-		rd := ResultValue(fetchSink.c.Value(), 0)
-		for _, a := range c.Args() {
-			if NamedOf(a.Type()) != g.storeType && g.flows(rd, a, c11FwdKinds) {
-				procCall, processFn = c.Value(), callee
-			}
+		if procCall == nil || len(c.chain) > len(procCall.chain) {
+			procCall, processFn = &scanBody[i], callee
 		}
 	}
 	if processFn == nil {
-		for _, c := range g.indexSets {
-			top := TopFunc(c.Fn)
-			for _, d := range CallsIn(top, true) {
-				if d.Callee() == decFn {
-					processFn = top
-				}
+		selfDecrypts := false
+		for _, c := range scanBody {
+			if c.Callee() == decFn {
+				selfDecrypts = true
 			}
 		}
-		for _, c := range CallsIn(scanFn, true) {
-			if processFn != nil && c.Callee() == processFn && c.Value() != nil {
-				procCall = c.Value()
-			}
+		if selfDecrypts {
+			r.Undecided(rule, sk+"#process-each", p.Pos(scanFn.Pos()), shortFn(scanFn)+" decrypts the meta blobs itself (no separate function decrypts one meta blob and writes its rows): this inlined form is not followed")
+		} else {
+			r.Violation(rule, sk+"#process-each", p.Pos(scanFn.Pos()), shortFn(scanFn)+" hands the fetched meta blobs to no function of the package that decrypts them: the index cannot be rebuilt from stored meta blobs")
 		}
-	}
-	if processFn == nil {
-		r.Violation(rule, sk+"#process-each", p.Pos(scanFn.Pos()), shortFn(scanFn)+" hands the fetched meta blobs to no function of the package, and no function both decrypts and writes the meta index: the index cannot be rebuilt from stored meta blobs")
 		r.Floor(rule, 12)
 		return
 	}
 	pk := FuncKey(processFn)
-	if procCall == nil {
-		r.Violation(rule, sk+"#process-each", p.Pos(scanFn.Pos()), shortFn(scanFn)+" does not call "+shortFn(processFn))
-	} else {
+	{
 		fed := false
 		if fetchSink != nil {
-			rd := ResultValue(fetchSink.c.Value(), 0)
-			for _, a := range procCall.Call.Args[1:] {
-				if g.flows(rd, a, c11FwdKinds) {
+			rd := ResultValue(fetchSink.Value(), 0)
+			for _, a := range procCall.Args() {
+				if NamedOf(a.Type()) != g.storeType && g.flows(rd, a, c11FwdKinds) {
 					fed = true
 				}
 			}
@@ -1848,84 +3129,77 @@ func c11RuleCompact(p *Program, r *Reporter, g *c11Flow) {
 		r.Check(fed, rule, sk+"#process-each", p.Pos(procCall.Pos()),
 			"the bytes handed to "+shortFn(processFn)+" flow from the reader the wrapped store returned for the enumerated ref",
 			"the bytes handed to "+shortFn(processFn)+" do not come from the fetch of the enumerated meta blob")
-		leaks, why := c11FailureLeaks(procCall)
+		levels, why := g.afterFailure(procCall.at())
 		if why != "" {
 			r.Violation(rule, sk+"#process-failure-fails-scan", p.Pos(procCall.Pos()), "failure of "+shortFn(processFn)+" cannot fail the scan: "+why)
 		} else {
 			detail := ""
-			if len(leaks) > 0 {
-				detail = fmt.Sprintf("when %s fails, the return at line %d may still report success: a corrupt or undecryptable meta blob is skipped silently and the blobs it describes disappear", shortFn(processFn), p.Fset.Position(leaks[0].Exit.Pos()).Line)
+			top := levels[len(levels)-1]
+			leaks := top.fn == scanFn && len(top.silent) > 0
+			if leaks {
+				detail = fmt.Sprintf("when %s fails, the return at line %d may still report success: a corrupt or undecryptable meta blob is skipped silently and the blobs it describes disappear", shortFn(processFn), p.Fset.Position(top.silent[0].Pos()).Line)
 			}
-			r.Check(len(leaks) == 0, rule, sk+"#process-failure-fails-scan", p.Pos(procCall.Pos()),
+			r.Check(!leaks, rule, sk+"#process-failure-fails-scan", p.Pos(procCall.Pos()),
 				"every path after a failed "+shortFn(processFn)+" returns a non-nil error", detail)
 		}
 	}
 
 	// (2c) process: success only after decrypt; index rows computed from the decrypted text; Set failure fails
-	var decIn *ssa.Call
-	for _, c := range CallsIn(processFn, false) {
-		if c.Callee() == decFn && c.Value() != nil {
-			decIn = c.Value()
+	procBody := g.effCalls(processFn, stop, false)
+	var decIn *c11ECall
+	for i := range procBody {
+		if c := procBody[i]; c.Callee() == decFn && c.Value() != nil && c.chain.sync() {
+			decIn = &procBody[i]
 		}
 	}
-	decPlainIdx := -1
-	if out := ResultValue(g.decCalls[0].Value(), 0); out != nil {
-		for i, prm := range decFn.Params {
-			if c11Objecty(prm.Type()) && NamedOf(prm.Type()) != g.storeType && g.node(prm) != g.node(g.decCalls[0].Args()[0]) && g.flows(out, prm, c11AllKinds) {
-				decPlainIdx = i
-			}
-		}
-	}
-	if decIn == nil || decPlainIdx < 0 {
-		r.Undecided(rule, pk+"#shape", p.Pos(processFn.Pos()), "the decrypt helper is not called directly in "+shortFn(processFn))
+	if decIn == nil {
+		r.Undecided(rule, pk+"#shape", p.Pos(processFn.Pos()), "the decrypt helper is not called (other than in a goroutine or deferred) in "+shortFn(processFn)+" or the helpers it calls")
 	} else {
-		for _, nr := range MaybeNilErrorReturns(processFn) {
-			ok, why := SuccessDominates(decIn, c11LastInstr(nr.From))
-			r.Check(ok, rule, pk+"#success-return#decrypt-ok", p.Pos(nr.Ret.Pos()),
+		plain := decIn.Value().Call.Args[ro.decPlainIdx]
+		hdrEvs, hdrs := g.headerEvents(g.effFuncs(processFn, stop, false), plain, decIn.chain)
+		for _, x := range g.successExits(processFn, nil) {
+			ok, why := g.exitOK(x, 0, func(e c11Exit) (bool, string) { return g.holds(c11CallEvent(*decIn, c11Done), e.at, 0) })
+			r.Check(ok, rule, pk+"#success-return#decrypt-ok", p.Pos(x.ret.Pos()),
 				"dominated by the success edge of the decrypt helper",
 				"a meta blob is accepted although decryption may have failed ("+why+")")
 			// header constant
-			hdr, okHdr := c11HeaderFact(g, nr.From, decIn.Call.Args[decPlainIdx])
+			hdr, okHdr := "", false
+			for i, ev := range hdrEvs {
+				ev := ev
+				if ok, _ := g.exitOK(x, 0, func(e c11Exit) (bool, string) { return g.holds(ev, e.at, 0) }); ok {
+					hdr, okHdr = hdrs[i], true
+				}
+			}
 			if !okHdr {
-				r.Violation(rule, pk+"#success-return#header", p.Pos(nr.Ret.Pos()), "the success return is not guarded by a comparison of the first decrypted line with a constant header")
+				r.Violation(rule, pk+"#success-return#header", p.Pos(x.ret.Pos()), "the success return is not guarded by a comparison of the first decrypted line with a constant header")
 			} else {
-				c11CheckWriters(p, r, g, rule, pk, hdr, encFn, encCipherIdx, metaStore)
+				c11CheckWriters(p, r, g, rule, pk, hdr, ro, metaStore)
 			}
 		}
 		nSet := 0
-		for _, c := range g.indexSets {
-			if c.Value() == nil {
+		for _, c := range procBody {
+			if !isSet[c.Instr] || c.Value() == nil {
 				continue
-			}
-			// the write is in the process function itself or in a helper it calls directly (bound 1)
-			var via *ssa.Call
-			if c.Fn != processFn {
-				for _, h := range CallsIn(processFn, false) {
-					if h.Callee() == c.Fn && c.Fn.Parent() == nil && h.Value() != nil {
-						via = h.Value()
-					}
-				}
-				if via == nil {
-					continue
-				}
 			}
 			nSet++
 			args := c.Args()
-			plain := decIn.Call.Args[decPlainIdx]
-			r.Check(g.flows(plain, args[1], c11FwdKinds) && g.flows(plain, args[2], c11FwdKinds), rule, pk+"#index.Set#from-decrypted", p.Pos(c.Pos()),
+			r.Check(g.cflows(plain, decIn.chain, args[1], c.chain, c11FwdKinds) && g.cflows(plain, decIn.chain, args[2], c.chain, c11FwdKinds), rule, pk+"#index.Set#from-decrypted", p.Pos(c.Pos()),
 				"key and value of the index row flow from the decrypted meta text",
 				"the index row written at start-up is not computed from the decrypted meta blob")
-			looped := inLoop(c.Block()) || via != nil && inLoop(via.Block())
+			looped := inLoop(c.Block())
+			for _, l := range c.chain {
+				if inLoop(l.Block()) {
+					looped = true
+				}
+			}
 			r.Check(looped, rule, pk+"#index.Set#per-line", p.Pos(c.Pos()),
 				"the index write sits in the line loop", "the index write is not inside a loop: only one row per meta blob would be restored, packed meta blobs lose all others")
-			leaks, why := c11FailureLeaks(c.Value())
-			if why == "" && len(leaks) == 0 && via != nil {
-				leaks, why = c11FailureLeaks(via)
-			}
+			levels, why := g.afterFailure(c.at())
 			if why != "" {
 				r.Violation(rule, pk+"#index.Set#failure-fails", p.Pos(c.Pos()), "a failed index write cannot fail "+shortFn(processFn)+": "+why)
 			} else {
-				r.Check(len(leaks) == 0, rule, pk+"#index.Set#failure-fails", p.Pos(c.Pos()),
+				top := levels[len(levels)-1]
+				r.Check(!(top.fn == processFn && len(top.silent) > 0), rule, pk+"#index.Set#failure-fails", p.Pos(c.Pos()),
 					"every path after a failed index write returns a non-nil error",
 					"after a failed index write "+shortFn(processFn)+" may still return nil: the row is lost and the blob invisible until the next restart")
 			}
@@ -1937,45 +3211,137 @@ func c11RuleCompact(p *Program, r *Reporter, g *c11Flow) {
 	r.Floor(rule, 14)
 }
 
+// c11CompactAt checks one removal from a wrapped store, seen from the compaction
+// function rt.fn (the removal sits in rt.fn or in a helper reached through rt.chain).
+func c11CompactAt(p *Program, r *Reporter, g *c11Flow, ro c11Roles, rt c11Root, rm c11Sink, removeName string) {
+	const rule = "X-compact"
+	fk := FuncKey(rt.fn)
+	site := p.Pos(rm.c.Pos())
+	rmE := c11ECall{rm.c, rt.chain}
+	rmAt := rmE.at()
+	rmStore := g.storeOf(rmE)
+	body := g.effCalls(rt.fn, ro.stop(), false)
+	var upload *c11ECall
+	whyUp := ""
+	for i := range body {
+		u := body[i]
+		if u.Value() == nil || !g.isSink(u.CallSite) || g.contentArg(u.CallSite) == nil || !c11StoreOverlap(g.storeOf(u), rmStore) {
+			continue
+		}
+		ok, w := g.holds(c11CallEvent(u, c11Done), rmAt, 0)
+		if ok {
+			upload = &body[i]
+		} else if whyUp == "" {
+			whyUp = " (" + c11CalleeName(u.CallSite) + u.chain.via() + ": " + w + ")"
+		}
+	}
+	if upload == nil {
+		r.Violation(rule, fk+"#"+rm.store+"."+removeName+"#after-upload", site,
+			"blobs are removed from the wrapped store "+rm.store+" without being dominated by the success edge of an upload to that store (in the same function, a helper it calls or - the removal being in a helper - its callers)"+whyUp+": if the packed meta blob was not stored, the only copies of these rows are deleted and the plaintext->ciphertext mapping is lost")
+		return
+	}
+	r.OK(rule, fk+"#"+rm.store+"."+removeName+"#after-upload", site, "dominated by the success edge of "+c11CalleeName(upload.CallSite)+upload.chain.via()+" to the same store")
+	// the upload is of successfully encrypted content
+	var enc *c11ECall
+	for i := range body {
+		c := body[i]
+		if c.Callee() != ro.encFn || c.Value() == nil {
+			continue
+		}
+		for _, a := range upload.Args() {
+			if g.wrappedStore(g.node(a)) == "" && g.cflows(c.Value().Call.Args[ro.encCipherIdx], c.chain, a, upload.chain, c11FwdKinds) {
+				enc = &body[i]
+			}
+		}
+	}
+	if enc == nil {
+		r.Undecided(rule, fk+"#"+rm.store+"."+removeName+"#upload-encrypted-ok", site, "the uploaded replacement is not encrypted by a call of the encrypt helper in this function or a helper it calls")
+	} else {
+		ok, why := g.holds(c11CallEvent(*enc, c11Done), upload.at(), 0)
+		r.Check(ok, rule, fk+"#"+rm.store+"."+removeName+"#upload-encrypted-ok", site,
+			"the upload is dominated by the success edge of the encrypt helper for the uploaded buffer",
+			"the replacement blob is uploaded although the encrypt helper may have failed ("+why+"): a truncated packed meta blob replaces the small ones")
+	}
+	// a failed index look-up (of a row that goes into the packed blob) never reaches the removal
+	for _, c := range body {
+		if rt := c.RecvType(); rt == nil || !c11Implements(rt, g.kvIface) || c.MethodName() != "Get" || c.Value() == nil {
+			continue
+		}
+		if enc != nil {
+			if out := ResultValue(c.Value(), 0); out == nil || !g.cflows(out, c.chain, enc.Value().Call.Args[ro.encPlainIdx], enc.chain, c11AllKinds) {
+				continue // not a row of the packed blob
+			}
+		}
+		bad := ""
+		if _, _, discarded := ErrValue(c.Value()); discarded {
+			bad = "the error of the index look-up is discarded"
+		} else {
+			levels, why := g.afterFailure(c.at())
+			if why != "" {
+				bad = why
+			}
+			for _, lv := range levels {
+				if t := c11TargetAt(rmAt, lv.fn, lv.chain); t != nil && lv.reach[t] {
+					bad = "the removal is reachable from the failure edge of the index look-up"
+				}
+			}
+		}
+		r.Check(bad == "", rule, fk+"#"+rm.store+"."+removeName+"#not-after-failed-lookup", p.Pos(c.Pos()),
+			"no path from the failure edge of the index look-up reaches the removal",
+			bad+": the packed meta blob would lack that row while the small meta blob holding it is deleted")
+	}
+	c11CompactCoverage(p, r, g, ro, rt, rm, enc)
+}
+
 // uploadsTo lists the content values uploaded to the named wrapped store: the
 // content argument of every sink on exactly that store, and, for a sink inside a
 // forwarding helper whose store parameter may be several stores, the content
-// argument at each caller that passes exactly that store (bound 1).
+// argument at each caller (transitively) that passes exactly that store.
 func (g *c11Flow) uploadsTo(store string) []ssa.Value {
 	var out []ssa.Value
+	var resolve func(fn *ssa.Function, storeVal, content ssa.Value, depth int)
+	resolve = func(fn *ssa.Function, storeVal, content ssa.Value, depth int) {
+		s := g.wrappedStore(g.node(storeVal))
+		if s == store {
+			out = append(out, content)
+			return
+		}
+		if !c11StoreOverlap(s, store) {
+			return
+		}
+		wi := g.paramIndexOfNode(fn, g.node(storeVal))
+		ci := -1
+		for root := range c11BufferRoots(content) {
+			if prm, ok := root.(*ssa.Parameter); ok {
+				ci = g.paramIndexOfNode(fn, g.node(prm))
+			}
+		}
+		if wi < 0 || fn.Parent() != nil || depth >= c11MaxDepth {
+			out = append(out, content) // cannot separate: treat as an upload to this store
+			return
+		}
+		for _, f := range g.fns {
+			for _, c := range CallsIn(f, false) {
+				if c.Callee() == fn && len(c.Args()) == len(fn.Params) {
+					cc := content
+					if ci >= 0 {
+						cc = c.Args()[ci]
+					}
+					resolve(f, c.Args()[wi], cc, depth+1)
+				}
+			}
+		}
+	}
 	for _, fn := range g.fns {
 		for _, sk := range g.sinksIn(fn, false) {
 			ca := g.contentArg(sk.c)
 			if ca == nil {
 				continue
 			}
-			if sk.store == store {
-				out = append(out, ca)
-				continue
-			}
-			if !strings.Contains("|"+sk.store+"|", "|"+store+"|") || fn.Parent() != nil {
-				continue
-			}
-			wi, ci := -1, -1
 			for _, a := range sk.c.Args() {
 				if g.wrappedStore(g.node(a)) != "" {
-					wi = g.paramIndexOfNode(fn, g.node(a))
-				}
-			}
-			for root := range c11BufferRoots(ca) {
-				if prm, ok := root.(*ssa.Parameter); ok {
-					ci = g.paramIndexOfNode(fn, g.node(prm))
-				}
-			}
-			if wi < 0 || ci < 0 {
-				out = append(out, ca) // cannot separate: treat as an upload to this store
-				continue
-			}
-			for _, f := range g.fns {
-				for _, c := range CallsIn(f, false) {
-					if c.Callee() == fn && g.wrappedStore(g.node(c.Args()[wi])) == store {
-						out = append(out, c.Args()[ci])
-					}
+					resolve(fn, a, ca, 0)
+					break
 				}
 			}
 		}
@@ -1983,41 +3349,48 @@ func (g *c11Flow) uploadsTo(store string) []ssa.Value {
 	return out
 }
 
-// c11HeaderFact finds, among the facts at block b, a comparison of a string
-// flowing from the decrypted buffer with a constant that is known equal.
-func c11HeaderFact(g *c11Flow, b *ssa.BasicBlock, plainBuf ssa.Value) (string, bool) {
-	for _, f := range FactsAt(b) {
-		bo, ok := f.Cond.(*ssa.BinOp)
-		if !ok || (bo.Op != token.EQL && bo.Op != token.NEQ) {
-			continue
-		}
-		if (bo.Op == token.EQL) != f.Val {
-			continue
-		}
-		for _, pair := range [][2]ssa.Value{{bo.X, bo.Y}, {bo.Y, bo.X}} {
-			if s, ok := ConstString(pair[1]); ok && s != "" && g.flows(plainBuf, pair[0], c11FwdKinds) {
-				return s, true
+// headerEvents lists the comparisons, in an effective body, of a string flowing
+// from the decrypted buffer with a non-empty constant: the event is "the string
+// was equal to the constant".
+func (g *c11Flow) headerEvents(funcs []c11Root, plainBuf ssa.Value, plainChain c11Chain) (evs []c11Event, hdrs []string) {
+	for _, f := range funcs {
+		for _, b := range f.fn.Blocks {
+			for _, in := range b.Instrs {
+				bo, ok := in.(*ssa.BinOp)
+				if !ok || (bo.Op != token.EQL && bo.Op != token.NEQ) {
+					continue
+				}
+				for _, pair := range [][2]ssa.Value{{bo.X, bo.Y}, {bo.Y, bo.X}} {
+					if s, ok := ConstString(pair[1]); ok && s != "" && g.cflows(plainBuf, plainChain, pair[0], f.chain, c11FwdKinds) {
+						want := c11True
+						if bo.Op == token.NEQ {
+							want = c11False
+						}
+						evs = append(evs, c11Event{at: c11At{chain: f.chain, in: bo}, want: want, val: bo})
+						hdrs = append(hdrs, s)
+					}
+				}
 			}
 		}
 	}
-	return "", false
+	return evs, hdrs
 }
 
 // c11CheckWriters: every encrypt-helper call whose ciphertext ends up in the
 // meta store writes a constant starting with the header the parser accepts.
-func c11CheckWriters(p *Program, r *Reporter, g *c11Flow, rule, pk, hdr string, encFn *ssa.Function, encCipherIdx int, metaStore string) {
+func c11CheckWriters(p *Program, r *Reporter, g *c11Flow, rule, pk, hdr string, ro c11Roles, metaStore string) {
 	// content arguments of uploads to the meta store
 	metaContents := g.uploadsTo(metaStore)
 	n := 0
 	for _, fn := range g.fns {
 		for _, c := range CallsIn(fn, false) {
-			if c.Callee() != encFn || c.Value() == nil || encCipherIdx < 0 {
+			if c.Callee() != ro.encFn || c.Value() == nil {
 				continue
 			}
 			args := c.Value().Call.Args
 			toMeta := false
 			for _, mc := range metaContents {
-				if g.flows(args[encCipherIdx], mc, c11FwdKinds) {
+				if g.flows(args[ro.encCipherIdx], mc, c11FwdKinds) {
 					toMeta = true
 				}
 			}
@@ -2028,10 +3401,10 @@ func c11CheckWriters(p *Program, r *Reporter, g *c11Flow, rule, pk, hdr string, 
 			// constants flowing into the plaintext buffer(s) of this call
 			var consts []string
 			for i, a := range args {
-				if i == encCipherIdx || !c11Objecty(a.Type()) || NamedOf(a.Type()) == g.storeType {
+				if i == ro.encCipherIdx || !c11Objecty(a.Type()) || NamedOf(a.Type()) == g.storeType {
 					continue
 				}
-				consts = append(consts, c11ConstsWritten(g, fn, a)...)
+				consts = append(consts, c11ConstsWritten(g, a)...)
 			}
 			ok := false
 			for _, k := range consts {
@@ -2049,35 +3422,51 @@ func c11CheckWriters(p *Program, r *Reporter, g *c11Flow, rule, pk, hdr string, 
 	}
 }
 
-// c11ConstsWritten lists the string constants that are written into buffer buf
-// in fn: constant arguments of calls taking buf, and constant (format) strings
-// in the backward slice of the value buf was built from.
-func c11ConstsWritten(g *c11Flow, fn *ssa.Function, buf ssa.Value) []string {
+// c11ConstsWritten lists the string constants that are written into buffer buf:
+// constant arguments of calls (anywhere in the package) that are handed the
+// buffer object itself - the value buf, what it was copied from and what it is
+// copied to (a helper's parameter, a helper's result) - and constant (format)
+// strings in the backward slice of the value buf was built from.
+func c11ConstsWritten(g *c11Flow, buf ssa.Value) []string {
 	var out []string
 	bn := g.node(buf)
-	for _, c := range CallsIn(fn, false) {
-		args := c.Args()
-		uses := false
-		for _, a := range args {
-			if g.node(a) == bn && bn != nil {
-				uses = true
-			}
+	if bn != nil {
+		ident := g.reach([]c11Source{{bn, ""}}, map[c11EdgeKind]bool{c11Copy: true})
+		for n := range g.reach([]c11Source{{bn, ""}}, map[c11EdgeKind]bool{c11CopyRev: true}) {
+			ident[n] = true
 		}
-		if !uses {
-			continue
-		}
-		for _, a := range args {
-			if s, ok := ConstString(a); ok {
-				out = append(out, s)
+		for _, fn := range g.fns {
+			for _, c := range CallsIn(fn, false) {
+				if g.followable(c.Callee()) {
+					continue
+				}
+				args := c.Args()
+				uses := false
+				for _, a := range args {
+					if n := g.node(a); n != nil {
+						if _, ok := ident[n]; ok {
+							uses = true
+						}
+					}
+				}
+				if !uses {
+					continue
+				}
+				for _, a := range args {
+					if s, ok := ConstString(a); ok {
+						out = append(out, s)
+					}
+				}
 			}
 		}
 	}
-	DependsOn(buf, func(v ssa.Value) bool {
+	g.dependsOn(buf, nil, func(v ssa.Value) bool {
 		if s, ok := ConstString(v); ok {
 			out = append(out, s)
 		}
 		return false
 	})
+	sort.Strings(out)
 	return out
 }
 
@@ -2101,38 +3490,6 @@ func c11ConstsWritten(g *c11Flow, fn *ssa.Function, buf ssa.Value) []string {
 // (bounded), with the row translated through the parameters; a deferred literal
 // is judged at every run-defers point it can reach, a go statement at the
 // statement itself (what it starts happens after it).
-
-type c11Roles struct {
-	encFn, decFn                                         *ssa.Function
-	encCipherIdx, encPlainIdx, decCipherIdx, decPlainIdx int
-}
-
-func (g *c11Flow) roles() (c11Roles, bool) {
-	ro := c11Roles{encCipherIdx: -1, encPlainIdx: -1, decCipherIdx: -1, decPlainIdx: -1}
-	if len(g.encCalls) != 1 || len(g.decCalls) != 1 {
-		return ro, false
-	}
-	encCall, decCall := g.encCalls[0], g.decCalls[0]
-	ro.encFn, ro.decFn = encCall.Fn, decCall.Fn
-	if ro.encFn.Parent() != nil || ro.decFn.Parent() != nil {
-		return ro, false
-	}
-	ro.encCipherIdx = g.paramIndexOfNode(ro.encFn, g.node(encCall.Args()[0]))
-	ro.decCipherIdx = g.paramIndexOfNode(ro.decFn, g.node(decCall.Args()[0]))
-	for i, prm := range ro.encFn.Params {
-		if i != ro.encCipherIdx && c11Objecty(prm.Type()) && NamedOf(prm.Type()) != g.storeType {
-			ro.encPlainIdx = i
-		}
-	}
-	if out := ResultValue(decCall.Value(), 0); out != nil {
-		for i, prm := range ro.decFn.Params {
-			if i != ro.decCipherIdx && c11Objecty(prm.Type()) && NamedOf(prm.Type()) != g.storeType && g.flows(out, prm, c11AllKinds) {
-				ro.decPlainIdx = i
-			}
-		}
-	}
-	return ro, ro.encCipherIdx >= 0 && ro.encPlainIdx >= 0 && ro.decCipherIdx >= 0 && ro.decPlainIdx >= 0
-}
 
 // c11Back is a backward slice of a set of values along SSA operands: through
 // loads to the stores of the variable (also stores into elements/fields of a
@@ -2338,85 +3695,42 @@ func c11WritesInto(al *ssa.Alloc) []ssa.Instruction {
 	return out
 }
 
-// c11Upload is an upload of content into one wrapped store, as seen from the
-// function that contains call: a direct sink, or a call of a package helper
-// that contains the sink and reports its failure.
+// c11Upload is an upload of content into one wrapped store, as seen from a
+// function: a sink in its effective body (the function itself or a package
+// helper it calls, transitively). content and ref are mapped through the chain
+// into the function's own values where they are parameters of the helper.
 type c11Upload struct {
-	call    *ssa.Call
-	content ssa.Value // in terms of call's function when known, else the sink's own argument
-	ref     ssa.Value
+	e       c11ECall
+	content ssa.Value // mapped into the function's own values where it is a parameter of the helper
+	ref     ssa.Value // the sink's own argument, to be seen through e.chain
 	what    string
 }
 
 func (g *c11Flow) uploadEvents(p *Program, fn *ssa.Function, store string) []c11Upload {
+	ro, _ := g.roles()
 	var out []c11Upload
-	for _, sk := range g.sinksIn(fn, false) {
-		ca := g.contentArg(sk.c)
-		if ca == nil || sk.c.Value() == nil || sk.store != store {
+	for _, e := range g.effCalls(fn, ro.stop(), false) {
+		if e.Value() == nil || !e.chain.sync() || !g.isSink(e.CallSite) {
 			continue
 		}
-		out = append(out, c11Upload{sk.c.Value(), ca, g.refArg(p, sk.c), c11CalleeName(sk.c)})
-	}
-	for _, c := range CallsIn(fn, false) {
-		h := c.Callee()
-		if h == nil || !g.inPkg[h] || h.Parent() != nil || h == fn || c.Value() == nil || len(c.Args()) != len(h.Params) {
+		ca := g.contentArg(e.CallSite)
+		if ca == nil || g.storeOf(e) != store {
 			continue
 		}
-		for _, sk := range g.sinksIn(h, false) {
-			ca := g.contentArg(sk.c)
-			if ca == nil || sk.c.Value() == nil {
-				continue
-			}
-			st := sk.store
-			for _, a := range sk.c.Args() {
-				if g.wrappedStore(g.node(a)) != "" {
-					if wi := g.paramIndexOfNode(h, g.node(a)); wi >= 0 {
-						st = g.wrappedStore(g.node(c.Args()[wi]))
-					}
-				}
-			}
-			if st != store || !c11ReportsFailure(h, sk.c.Value()) {
-				continue
-			}
-			up := c11Upload{call: c.Value(), content: ca, ref: g.refArg(p, sk.c), what: shortFn(h) + " (" + c11CalleeName(sk.c) + ")"}
-			for root := range c11BufferRoots(ca) {
-				if prm, ok := root.(*ssa.Parameter); ok {
-					if ci := g.paramIndexOfNode(h, g.node(prm)); ci >= 0 {
-						up.content = c.Args()[ci]
-					}
-				}
-			}
-			if up.ref != nil {
-				if prm, ok := originValue(up.ref).(*ssa.Parameter); ok {
-					for ri, hp := range h.Params {
-						if hp == prm {
-							up.ref = c.Args()[ri]
-						}
-					}
-				}
-			}
-			out = append(out, up)
+		up := c11Upload{e: e, what: c11CalleeName(e.CallSite)}
+		if n := len(e.chain); n > 0 {
+			up.what = shortFn(e.chain[0].to) + " (" + c11CalleeName(e.CallSite) + ")"
 		}
+		up.content = ca
+		for root := range c11BufferRoots(ca) {
+			if _, ok := root.(*ssa.Parameter); ok {
+				up.content, _ = g.canon(root, e.chain, false)
+			}
+		}
+		up.ref = g.refArg(p, e.CallSite) // seen through e.chain
+		out = append(out, up)
 	}
 	return out
-}
-
-// c11ReportsFailure: every return of h whose error may be nil either returns the
-// error of call itself or is on call's success edge.
-func c11ReportsFailure(h *ssa.Function, call *ssa.Call) bool {
-	ev, hasErr, discarded := ErrValue(call)
-	if !hasErr || discarded || ErrResultIndex(h) < 0 {
-		return false
-	}
-	for _, nr := range MaybeNilErrorReturns(h) {
-		if sameOrigin(nr.Val, ev) {
-			continue
-		}
-		if ok, _ := SuccessDominates(call, c11LastInstr(nr.From)); !ok {
-			return false
-		}
-	}
-	return true
 }
 
 // c11IndexEvent is one index write as seen from function fn.
@@ -2447,61 +3761,8 @@ func (cx *c11IndexCtx) back(vals []ssa.Value, stopRefs bool, stop func(ssa.Value
 	return w
 }
 
-// inPkgCallers lists the call sites of fn in the package; closed=false when fn
-// may also be entered from elsewhere (exported API method, used as a value,
-// reachable through an interface, handed to a callee as a callback).
 func (cx *c11IndexCtx) inPkgCallers(fn *ssa.Function) (sites []CallSite, closed bool) {
-	g := cx.g
-	closed = true
-	if fn.Parent() == nil {
-		if fn.Signature.Recv() != nil && token.IsExported(fn.Name()) {
-			closed = false
-		}
-		if fn.Signature.Recv() == nil && token.IsExported(fn.Name()) {
-			closed = false
-		}
-		if len(cx.p.FuncValueUses(fn)) > 0 || len(cx.p.InvokeSites(fn)) > 0 {
-			closed = false
-		}
-	}
-	for _, f := range g.fns {
-		for _, c := range CallsIn(f, false) {
-			if c.Callee() == fn && len(c.Args()) == len(fn.Params) {
-				sites = append(sites, c)
-				continue
-			}
-			for _, lit := range FuncArgClosures(c) {
-				if lit == fn {
-					closed = false
-				}
-			}
-		}
-	}
-	if fn.Parent() != nil {
-		// every use of the closure value must be one of the call sites found
-		for _, b := range fn.Parent().Blocks {
-			for _, in := range b.Instrs {
-				mc, ok := in.(*ssa.MakeClosure)
-				if !ok || mc.Fn != ssa.Value(fn) {
-					continue
-				}
-				if refs := mc.Referrers(); refs != nil {
-					for _, rf := range *refs {
-						switch x := rf.(type) {
-						case *ssa.DebugRef, *ssa.Store:
-						case ssa.CallInstruction:
-							if x.Common().Value != ssa.Value(mc) {
-								closed = false
-							}
-						default:
-							closed = false
-						}
-					}
-				}
-			}
-		}
-	}
-	return sites, closed
+	return cx.g.closedCallers(fn)
 }
 
 // pointsOf: the program points at which the effect of call site c takes place.
@@ -2520,24 +3781,27 @@ func c11PointsOf(c CallSite) (pts []ssa.Instruction, deferred bool) {
 
 // replayed: the row is computed only from the plaintext of a decrypt-helper call in
 // ev.fn. Returns that call.
-func (cx *c11IndexCtx) replayed(ev c11IndexEvent) *ssa.Call {
-	for _, c := range CallsIn(ev.fn, false) {
-		if c.Callee() != cx.ro.decFn || c.Value() == nil {
+func (cx *c11IndexCtx) replayed(ev c11IndexEvent) *c11ECall {
+	body := cx.g.effCalls(ev.fn, cx.ro.stop(), false)
+	for i := range body {
+		c := body[i]
+		if c.Callee() != cx.ro.decFn || c.Value() == nil || !c.chain.sync() {
 			continue
 		}
 		plain := c.Value().Call.Args[cx.ro.decPlainIdx]
-		w := cx.back(append(append([]ssa.Value{}, ev.key...), ev.val...), false, func(v ssa.Value) bool { return sameOrigin(v, plain) })
+		isPlain := func(v ssa.Value) bool { return cx.g.same(v, nil, plain, c.chain) }
+		w := cx.back(append(append([]ssa.Value{}, ev.key...), ev.val...), false, isPlain)
 		if len(w.leaves) == 0 {
 			continue
 		}
 		only := true
 		for _, l := range w.leaves {
-			if !sameOrigin(l, plain) {
+			if !isPlain(l) {
 				only = false
 			}
 		}
 		if only {
-			return c.Value()
+			return &body[i]
 		}
 	}
 	return nil
@@ -2575,7 +3839,7 @@ func (cx *c11IndexCtx) durable(ev c11IndexEvent) (ok bool, detail, why string) {
 		dominated := true
 		reason := ""
 		for _, at := range ev.at {
-			if ok, w := SuccessDominates(up.call, at); !ok {
+			if ok, w := g.holds(c11CallEvent(up.e, c11Done), c11At{in: at}, 0); !ok {
 				dominated, reason = false, w
 			}
 		}
@@ -2643,7 +3907,7 @@ func (cx *c11IndexCtx) durable(ev c11IndexEvent) (ok bool, detail, why string) {
 			continue
 		}
 		// the ciphertext the row names was stored before the meta blob that names it
-		okBlob, whyBlob := cx.ciphertextFirst(ev.fn, up.call, valRefs, 0)
+		okBlob, whyBlob := cx.ciphertextFirst(ev.fn, up.e.at(), valRefs, 0)
 		if !okBlob {
 			fail(4, "ciphertext-first: "+whyBlob)
 			continue
@@ -2655,20 +3919,14 @@ func (cx *c11IndexCtx) durable(ev c11IndexEvent) (ok bool, detail, why string) {
 
 // ciphertextFirst: point `at` in fn is on the success edge of an upload into the
 // blobs store stored under (one of) encRefs.
-func (cx *c11IndexCtx) ciphertextFirst(fn *ssa.Function, at ssa.Instruction, encRefs []ssa.Value, depth int) (bool, string) {
+func (cx *c11IndexCtx) ciphertextFirst(fn *ssa.Function, at c11At, encRefs []ssa.Value, depth int) (bool, string) {
 	g := cx.g
 	matches := func(up c11Upload, r ssa.Value) bool {
-		if up.ref != nil && sameOrigin(up.ref, r) {
+		if up.ref != nil && g.same(up.ref, up.e.chain, r, nil) {
 			return true
 		}
 		// the ref the store call itself reported (encSB.Ref)
-		w := cx.back([]ssa.Value{r}, false, func(v ssa.Value) bool { return v == ssa.Value(up.call) })
-		for _, l := range w.leaves {
-			if l == ssa.Value(up.call) {
-				return true
-			}
-		}
-		return false
+		return g.dependsOn(r, nil, func(v ssa.Value) bool { return v == ssa.Value(up.e.Value()) })
 	}
 	why := "no upload into the blobs store (" + cx.blobStore + ") under the encrypted ref of the row in " + shortFn(fn)
 	for _, up := range g.uploadEvents(cx.p, fn, cx.blobStore) {
@@ -2676,7 +3934,7 @@ func (cx *c11IndexCtx) ciphertextFirst(fn *ssa.Function, at ssa.Instruction, enc
 			if !matches(up, r) {
 				continue
 			}
-			if ok, w := SuccessDominates(up.call, at); ok {
+			if ok, w := g.holds(c11CallEvent(up.e, c11Done), at, 0); ok {
 				return true, "that upload is on the success edge of the upload of the named ciphertext into " + cx.blobStore + " by " + up.what
 			} else {
 				why = "the meta blob is uploaded although the upload of the ciphertext it names into " + cx.blobStore + " has not succeeded (" + w + ")"
@@ -2708,7 +3966,7 @@ func (cx *c11IndexCtx) ciphertextFirst(fn *ssa.Function, at ssa.Instruction, enc
 					continue
 				}
 				refs := cx.back([]ssa.Value{cs.Args()[idx]}, true, nil).refs
-				ok, w := cx.ciphertextFirst(cs.Fn, cs.Instr, refs, depth+1)
+				ok, w := cx.ciphertextFirst(cs.Fn, c11At{in: cs.Instr}, refs, depth+1)
 				if !ok {
 					all, why = false, w
 				}
@@ -2798,38 +4056,52 @@ func (cx *c11IndexCtx) translate(callee *ssa.Function, cs CallSite, vals []ssa.V
 // bytes fetched from the meta store: directly, or through parameters of ev.fn that
 // every caller feeds from such a fetch (a caller that does not is itself judged as
 // an index write event at its call site).
-func (cx *c11IndexCtx) replaySource(ev c11IndexEvent, dec *ssa.Call, depth int) (bool, string, string) {
-	cipher := dec.Call.Args[cx.ro.decCipherIdx]
-	w := cx.back([]ssa.Value{cipher}, false, func(v ssa.Value) bool {
-		if _, isPrm := v.(*ssa.Parameter); isPrm {
-			return true
-		}
+func (cx *c11IndexCtx) replaySource(ev c11IndexEvent, dec *c11ECall, depth int) (bool, string, string) {
+	isReader := func(v ssa.Value) bool {
 		for _, rd := range cx.readers {
 			if sameOrigin(v, rd) {
 				return true
 			}
 		}
 		return false
-	})
-	form := "replayed-from-meta" + ev.via + ": the row is computed only from the plaintext of " + shortFn(cx.ro.decFn) + " in " + shortFn(ev.fn)
-	var prms []*ssa.Parameter
-	for _, l := range w.leaves {
-		isReader := false
-		for _, rd := range cx.readers {
-			if sameOrigin(l, rd) {
-				isReader = true
-			}
-		}
-		if isReader {
-			continue
-		}
-		prm, ok := l.(*ssa.Parameter)
-		if !ok || prm.Parent() != ev.fn {
-			return false, "", "the ciphertext decrypted in " + shortFn(ev.fn) + " is computed from " + cx.g.nodeName(l) + ", which is neither a fetch from the meta store nor a parameter"
-		}
-		prms = append(prms, prm)
 	}
-	if len(w.leaves) == 0 {
+	form := "replayed-from-meta" + ev.via + ": the row is computed only from the plaintext of " + shortFn(cx.ro.decFn) + " in " + shortFn(ev.fn) + dec.chain.via()
+	// the ciphertext, followed from the helper that decrypts (if any) up to ev.fn
+	type item struct {
+		v     ssa.Value
+		chain c11Chain
+	}
+	work := []item{{dec.Value().Call.Args[cx.ro.decCipherIdx], dec.chain}}
+	var prms []*ssa.Parameter
+	nLeaves := 0
+	for len(work) > 0 {
+		it := work[len(work)-1]
+		work = work[:len(work)-1]
+		w := cx.back([]ssa.Value{it.v}, false, func(v ssa.Value) bool {
+			if _, isPrm := v.(*ssa.Parameter); isPrm {
+				return true
+			}
+			return isReader(v)
+		})
+		for _, l := range w.leaves {
+			nLeaves++
+			if isReader(l) {
+				continue
+			}
+			prm, ok := l.(*ssa.Parameter)
+			if n := len(it.chain); ok && n > 0 && it.chain[n-1].to == prm.Parent() && !it.chain[n-1].cb {
+				if idx := c11ParamIndex(prm); idx >= 0 && idx < len(it.chain[n-1].Args()) && nLeaves < 200 {
+					work = append(work, item{it.chain[n-1].Args()[idx], it.chain[:n-1]})
+					continue
+				}
+			}
+			if !ok || prm.Parent() != ev.fn {
+				return false, "", "the ciphertext decrypted in " + shortFn(ev.fn) + dec.chain.via() + " is computed from " + cx.g.nodeName(l) + ", which is neither a fetch from the meta store nor a parameter"
+			}
+			prms = append(prms, prm)
+		}
+	}
+	if nLeaves == 0 {
 		return false, "", "cannot find where the ciphertext decrypted in " + shortFn(ev.fn) + " comes from"
 	}
 	if len(prms) == 0 {
@@ -2890,11 +4162,8 @@ func c11RuleIndex(p *Program, r *Reporter, g *c11Flow) {
 	// roles of the two wrapped stores: the meta store is the one the start-up scan
 	// enumerates with a callback, the blobs store the one Fetch reads
 	for _, fn := range g.fns {
-		if fn.Parent() != nil {
-			continue
-		}
-		for _, s := range g.sinksIn(fn, true) {
-			if len(FuncArgClosures(s.c)) > 0 && !strings.Contains(s.store, "|") {
+		for _, s := range g.sinksIn(fn, false) {
+			if len(g.funcArgs(s.c)) > 0 && !strings.Contains(s.store, "|") {
 				if cx.metaStore != "" && cx.metaStore != s.store {
 					r.Undecided(rule, c11Rel+"#store-roles", p.Pos(s.c.Pos()), "two different wrapped stores are enumerated with a callback: cannot tell the meta store")
 					return
@@ -2905,10 +4174,12 @@ func c11RuleIndex(p *Program, r *Reporter, g *c11Flow) {
 	}
 	fetchIface := p.Iface("pkg/blob", "Fetcher")
 	if fetchFn, _ := p.MethodOf(g.storeType, fetchIface.Method(0).Name()); fetchFn != nil {
-		for _, s := range g.sinksIn(fetchFn, false) {
-			if v := s.c.Value(); v != nil {
-				if out := ResultValue(v, 0); out != nil && c11Implements(out.Type(), g.readerIface) && !strings.Contains(s.store, "|") {
-					cx.blobStore = s.store
+		for _, e := range g.effCalls(fetchFn, ro.stop(), false) {
+			if v := e.Value(); v != nil && e.chain.sync() && g.isSink(e.CallSite) {
+				if out := ResultValue(v, 0); out != nil && c11Implements(out.Type(), g.readerIface) {
+					if s := g.storeOf(e); !strings.Contains(s, "|") {
+						cx.blobStore = s
+					}
 				}
 			}
 		}
@@ -2995,15 +4266,17 @@ func c11RuleIndex(p *Program, r *Reporter, g *c11Flow) {
 	}
 }
 
-// c11CompactCoverage: what compaction deletes is what it packed. Inside the
+// c11CompactCoverage: what compaction deletes is what it packed. Seen from the
 // compaction function the removed refs are one parameter (D) and the plaintext of
 // the packed blob is fed from another parameter (P) of ref-slice type; at every
 // call site the two arguments are lock-step accumulators: built by appending, in
 // the same block, field f1 (a ref slice) and field f2 (a ref) of the SAME record to
-// the two lists, reset together, merged by phis edge by edge. Then D lists exactly
+// the two lists, reset together, merged by phis edge by edge (also when the pair of
+// appends sits in a helper that takes and returns both lists). Then D lists exactly
 // the records whose lines are in P.
-func c11CompactCoverage(p *Program, r *Reporter, g *c11Flow, fn *ssa.Function, rm c11Sink, enc *ssa.Call) {
+func c11CompactCoverage(p *Program, r *Reporter, g *c11Flow, ro c11Roles, rt c11Root, rm c11Sink, enc *c11ECall) {
 	const rule = "X-compact"
+	fn := rt.fn
 	fk := FuncKey(fn)
 	site := p.Pos(rm.c.Pos())
 	refNamed := p.NamedType("pkg/blob", "Ref")
@@ -3022,17 +4295,14 @@ func c11CompactCoverage(p *Program, r *Reporter, g *c11Flow, fn *ssa.Function, r
 		r.Undecided(rule, construct, site, "cannot identify the list of removed refs / the encryption of the packed blob")
 		return
 	}
-	ro, ok := g.roles()
-	if !ok {
-		r.Undecided(rule, construct, site, "cannot identify the plaintext parameter of the encrypt helper")
-		return
-	}
-	dPrm, _ := originValue(removed).(*ssa.Parameter)
+	ro2 := ro
+	canon, _ := g.canon(removed, rt.chain, false)
+	dPrm, _ := canon.(*ssa.Parameter)
 	if dPrm == nil || dPrm.Parent() != fn {
 		r.Undecided(rule, construct, site, "the list of removed refs is not a parameter of "+shortFn(fn)+": cannot relate it to what the callers packed")
 		return
 	}
-	plainBuf := enc.Call.Args[ro.encPlainIdx]
+	plainBuf := enc.Value().Call.Args[ro2.encPlainIdx]
 	di, pi := -1, -1
 	nP := 0
 	for i, prm := range fn.Params {
@@ -3040,7 +4310,7 @@ func c11CompactCoverage(p *Program, r *Reporter, g *c11Flow, fn *ssa.Function, r
 			di = i
 			continue
 		}
-		if isRefSlice(prm.Type()) && g.flows(prm, plainBuf, c11AllKinds) {
+		if isRefSlice(prm.Type()) && g.cflows(prm, nil, plainBuf, enc.chain, c11AllKinds) {
 			pi = i
 			nP++
 		}
@@ -3049,7 +4319,7 @@ func c11CompactCoverage(p *Program, r *Reporter, g *c11Flow, fn *ssa.Function, r
 		r.Violation(rule, construct, site, fmt.Sprintf("%d ref-list parameters of %s (other than the removed list) flow into the plaintext of the packed meta blob, want exactly 1: the packed blob is not built from the rows handed in with the list of blobs to delete", nP, shortFn(fn)))
 		return
 	}
-	if g.flows(dPrm, plainBuf, c11FwdKinds) {
+	if g.cflows(dPrm, nil, plainBuf, enc.chain, c11FwdKinds) {
 		r.Undecided(rule, construct, site, "the removed refs also flow into the packed plaintext: cannot tell the two lists apart")
 		return
 	}
@@ -3071,7 +4341,7 @@ func c11CompactCoverage(p *Program, r *Reporter, g *c11Flow, fn *ssa.Function, r
 	for _, cs := range sites {
 		n[cs.Fn]++
 		ck := fmt.Sprintf("%s#call:%s[%d]#lists-in-lock-step", FuncKey(cs.Fn), shortFn(fn), n[cs.Fn])
-		ok, why := c11LockStep(cs.Args()[pi], cs.Args()[di], map[[2]ssa.Value]bool{})
+		ok, why := g.lockStep(cs.Args()[pi], cs.Args()[di], nil, map[[2]ssa.Value]bool{}, 0)
 		switch {
 		case ok:
 			r.OK(rule, ck, p.Pos(cs.Pos()), "the rows to pack and the meta blobs to delete are accumulated in lock-step from the same records (one append each per record in the same block, reset together)")
@@ -3083,11 +4353,17 @@ func c11CompactCoverage(p *Program, r *Reporter, g *c11Flow, fn *ssa.Function, r
 	}
 }
 
-// c11LockStep: see c11CompactCoverage. A reason starting with "?" means the shape
-// is not understood (undecided) rather than wrong.
-func c11LockStep(a, b ssa.Value, assumed map[[2]ssa.Value]bool) (bool, string) {
+// lockStep: see c11CompactCoverage. ctx is the chain of helper calls entered so
+// far (a pair of parameters of the helper stands for the pair of arguments). A
+// reason starting with "?" means the shape is not understood (undecided) rather
+// than wrong.
+func (g *c11Flow) lockStep(a, b ssa.Value, ctx c11Chain, assumed map[[2]ssa.Value]bool, depth int) (bool, string) {
+	a, b = originValue(a), originValue(b)
 	if IsNilConst(a) && IsNilConst(b) {
 		return true, ""
+	}
+	if depth > 40 {
+		return false, "?construction of the lists too deep"
 	}
 	key := [2]ssa.Value{a, b}
 	if assumed[key] {
@@ -3101,7 +4377,7 @@ func c11LockStep(a, b ssa.Value, assumed map[[2]ssa.Value]bool) (bool, string) {
 		}
 		assumed[key] = true
 		for i := range pa.Edges {
-			if ok, why := c11LockStep(pa.Edges[i], pb.Edges[i], assumed); !ok {
+			if ok, why := g.lockStep(pa.Edges[i], pb.Edges[i], ctx, assumed, depth+1); !ok {
 				return false, why
 			}
 		}
@@ -3118,13 +4394,45 @@ func c11LockStep(a, b ssa.Value, assumed map[[2]ssa.Value]bool) (bool, string) {
 		if !ok1 || !ok2 {
 			return false, "?an appended element is not a field of a record"
 		}
-		if !sameOrigin(xa, xb) {
+		if !g.same(xa, ctx, xb, ctx) {
 			return false, "the rows and the ref to delete are taken from different records"
 		}
 		if fa == fb {
 			return false, "?both lists are fed from the same field"
 		}
-		return c11LockStep(baseA, baseB, assumed)
+		return g.lockStep(baseA, baseB, ctx, assumed, depth+1)
+	}
+	// both are parameters of the helper entered last: the pair of arguments
+	if qa, ok := a.(*ssa.Parameter); ok {
+		if qb, ok := b.(*ssa.Parameter); ok && len(ctx) > 0 {
+			l := ctx[len(ctx)-1]
+			ia, ib := c11ParamIndex(qa), c11ParamIndex(qb)
+			if l.to == qa.Parent() && l.to == qb.Parent() && ia >= 0 && ib >= 0 && ia < len(l.Args()) && ib < len(l.Args()) {
+				return g.lockStep(l.Args()[ia], l.Args()[ib], ctx[:len(ctx)-1], assumed, depth+1)
+			}
+		}
+	}
+	// both are results of one call of a package helper: the pair it returns, at every return
+	if ca, ia := c11CallOfResult(a); ca != nil {
+		if cb, ib := c11CallOfResult(b); cb == ca && ia != ib {
+			cs := CallSite{ca.Parent(), ca}
+			if h := cs.Callee(); g.followable(h) && !ctx.has(h) && len(ctx) < c11MaxDepth && len(cs.Args()) == len(h.Params) {
+				inner := ctx.with(c11Link{cs, h, false})
+				rets := Returns(h)
+				if len(rets) == 0 {
+					return false, "?the helper building the lists never returns"
+				}
+				for _, ri := range rets {
+					if ia >= len(ri.Results) || ib >= len(ri.Results) {
+						return false, "?unrecognised construction of the lists"
+					}
+					if ok, why := g.lockStep(ri.Results[ia], ri.Results[ib], inner, assumed, depth+1); !ok {
+						return false, why
+					}
+				}
+				return true, ""
+			}
+		}
 	}
 	if IsNilConst(a) != IsNilConst(b) {
 		return false, "one list is reset while the other keeps its entries"
